@@ -1,12 +1,43 @@
 (** [Proof.Update] (mirror: [Model.ProofUpdate.proof_update]) against the reference forest
-    (property C07). *)
+    (property C07: "a cached proof updated from block data alone stays complete and canonical").
+
+    A light client holds the cached proof [exp_cached s C] of a set [C] of leaves.  After a block it
+    calls [Proof.Update] with the block data [spec_update_data s dels adds] (which
+    [StumpDelData.stump_update_data] proves [Stump.Update] to produce), the positions of the
+    deleted leaves and the indexes of the additions it wants to remember.  The statement of C07:
+    the result is [exp_cached (apply_block s dels adds) ((C minus dels) ++ remembered additions)].
+
+    What is proved here
+    - G0  the full statement as an executable check [pu_check]; evaluated in the free hash algebra
+          on every history over four slots (19,375 cases; five slots - 96,875 cases - and six slots -
+          234,375 cases - were run too) and on a dozen larger histories: no difference;
+    - G1  [proof_update_add_only]: the statement for every ADDITION-ONLY block ([dels = []]), on any
+          forest of up to 2^63 leaves: dead slots, empty roots that the additions write over
+          ([u_to_destroy], the positions lifted by [getNewPositions]), additions that make the
+          forest grow a row ([maybeRemap]), any remembered subset;
+          [ag_both]: the two halves separately - without deletions [updateProofRemove] returns its
+          input, and [updateProofAdd] computes the expected cached proof of the new state.
+    Not proved: blocks with deletions ([updateProofRemove] with targets); see the end of the file.
+
+    Structure
+    - 1, 2  subtree occurrences [occ]/[locc] in the layout of a state; the known set and the
+            canonical proof positions in terms of occurrences ([known_occ], [canon_pos_occ]);
+    - 4     the update data of additions ([new_add]) in terms of occurrences;
+    - 5     the helpers of [Proof.Update] on well-formed inputs; [updateProofRemove] without targets;
+    - 6     auxiliary facts;
+    - then  [DetectOffset]: positions of one aligned block of the forest are in the same tree
+            ([subtree_same_block]); [getNewPositions] with one destroyed root = the coordinate lift
+            [StumpAddData.lift1] ([pu_gnp_targets_single], [pu_moved]); occurrences by path and the
+            lift of whole subtrees over a run of additions ([lift_adds]); [updateProofAdd] on graphs
+            of the new valuation ([pu_updateProofAdd_graph2]); the theorem ([Section AddGen]);
+    - 7, 8  the free hash algebra, examples, the executable check. *)
 From Utreexo Require Import Base.Hash Model.Utils Model.UtilsFast Model.Verify Model.ProofOps
   Model.ProofUpdate Spec.Forest Spec.Oracle Spec.Geometry Spec.Term
   Proofs.UtilsGeom Proofs.UtilsGeom2 Proofs.SpecBasics Proofs.StumpAdd Proofs.LayoutStruct
   Proofs.ProofPosSpec Proofs.CalcTotal Proofs.CalcSound Proofs.CalcComplete Proofs.CachedVerifies
   Proofs.AbstractModels Proofs.StumpAddData Proofs.StumpDelData Proofs.ProofOpsSpec.
 From Utreexo Require Proofs.RefTheory.
-From Coq Require Import List Arith PeanoNat NArith Lia ZifyNat ZifyN ZifyBool Sorted Permutation.
+From Coq Require Import List Arith PeanoNat NArith ZArith Lia ZifyNat ZifyN ZifyBool Sorted Permutation.
 Import ListNotations.
 Open Scope N_scope.
 
@@ -393,151 +424,6 @@ Section Locc.
   Qed.
 End Locc.
 
-(** * 3. Additions on a forest without empty roots: the old subtrees stay where they are *)
-
-Section AddOcc.
-  Variable H : Type.
-  Variable HO : ops H.
-  Local Notation entry := (StumpAdd.entry H).
-  Local Notation erow := (@StumpAdd.erow H).
-  Local Notation elo := (@elo H).
-  Local Notation merge := (merge H HO).
-
-  Definition no_empty_root (s : slots H) : Prop := forall e, In e (forest HO s) -> snd e <> None.
-
-  Lemma pu_chain_coords n h (e : entry) :
-    erow e = h -> elo e = 2 * (n / p2 (S h)) * p2 h -> StumpAdd.bit n h = true ->
-    elo e / 2 ^ N.of_nat (erow e) = 2 * (n / p2 (S h)) /\ n / p2 h = 2 * (n / p2 (S h)) + 1.
-  Proof.
-    intros Hr Hlo Hb. pose proof (chain_entry_coord H n h e Hr Hlo) as E1.
-    pose proof (xc_child n h Hb) as E2.
-    apply (f_equal snd) in E1. apply (f_equal snd) in E2.
-    unfold ecoord, chd, xc in E1, E2. cbn [fst snd] in E1, E2.
-    split; [rewrite E1; lia|exact E2].
-  Qed.
-
-  Lemma merge_occ_bwd n : forall ch h c, chain_at H n h ch -> (forall e, In e ch -> snd e <> None) ->
-    (forall c0 r0 o0, occ H c h (n / p2 h) c0 r0 o0 ->
-       occ H (merge ch c) (h + length ch) (n / p2 (h + length ch)) c0 r0 o0) /\
-    (forall e ce c0 r0 o0, In e ch -> snd e = Some ce ->
-       occ H ce (erow e) (elo e / 2 ^ N.of_nat (erow e)) c0 r0 o0 ->
-       occ H (merge ch c) (h + length ch) (n / p2 (h + length ch)) c0 r0 o0).
-  Proof.
-    induction ch as [|e ch IH]; intros h c Hc Hne.
-    - cbn [length]. rewrite Nat.add_0_r. split; [intros c0 r0 o0 Ho; exact Ho|].
-      intros e ce c0 r0 o0 [].
-    - destruct Hc as (Hr & Hlo & Hb & Hc).
-      destruct (pu_chain_coords n h e Hr Hlo Hb) as [E1 E2].
-      destruct (snd e) as [ce|] eqn:Ese; [|exfalso; exact (Hne e (or_introl eq_refl) Ese)].
-      assert (Em : merge (e :: ch) c
-                   = merge ch (CNode (op_hash2 HO (chash ce) (chash c)) ce c)).
-      { unfold StumpAddData.merge. cbn [fold_left]. unfold mstep at 2. rewrite Ese. reflexivity. }
-      rewrite Em. cbn [length]. replace (h + S (length ch))%nat with (S h + length ch)%nat by lia.
-      destruct (IH (S h) (CNode (op_hash2 HO (chash ce) (chash c)) ce c) Hc
-                   (fun e' He' => Hne e' (or_intror He'))) as [IH1 IH2].
-      split.
-      + intros c0 r0 o0 Ho. apply IH1. apply occ_right. rewrite <- E2. exact Ho.
-      + intros e' ce' c0 r0 o0 [<-|He'] Hse Ho.
-        * rewrite Ese in Hse. injection Hse as <-. apply IH1. apply occ_left.
-          rewrite <- E1, Hr in *. exact Ho.
-        * exact (IH2 e' ce' c0 r0 o0 He' Hse Ho).
-  Qed.
-
-  Lemma merge_occ_fwd n : forall ch h c, chain_at H n h ch -> (forall e, In e ch -> snd e <> None) ->
-    forall c0 r0 o0, occ H (merge ch c) (h + length ch) (n / p2 (h + length ch)) c0 r0 o0 ->
-      incl (cleaves H c) (cleaves H c0) \/ occ H c h (n / p2 h) c0 r0 o0 \/
-      exists e ce, In e ch /\ snd e = Some ce /\
-                   occ H ce (erow e) (elo e / 2 ^ N.of_nat (erow e)) c0 r0 o0.
-  Proof.
-    induction ch as [|e ch IH]; intros h c Hc Hne c0 r0 o0 Ho.
-    - cbn [length] in Ho. rewrite Nat.add_0_r in Ho. right. left. exact Ho.
-    - destruct Hc as (Hr & Hlo & Hb & Hc).
-      destruct (pu_chain_coords n h e Hr Hlo Hb) as [E1 E2].
-      destruct (snd e) as [ce|] eqn:Ese; [|exfalso; exact (Hne e (or_introl eq_refl) Ese)].
-      assert (Em : merge (e :: ch) c
-                   = merge ch (CNode (op_hash2 HO (chash ce) (chash c)) ce c)).
-      { unfold StumpAddData.merge. cbn [fold_left]. unfold mstep at 2. rewrite Ese. reflexivity. }
-      rewrite Em in Ho. cbn [length] in Ho.
-      replace (h + S (length ch))%nat with (S h + length ch)%nat in Ho by lia.
-      destruct (IH (S h) _ Hc (fun e' He' => Hne e' (or_intror He')) c0 r0 o0 Ho)
-        as [Hi|[Ho'|(e' & ce' & He' & Hse & Ho')]].
-      + left. intros x Hx. apply Hi. cbn [cleaves]. apply in_or_app. right. exact Hx.
-      + inversion Ho'; subst.
-        * left. intros x Hx. cbn [cleaves]. apply in_or_app. right. exact Hx.
-        * right. right. exists e, ce. split; [left; reflexivity|]. split; [exact Ese|].
-          rewrite E1. assumption.
-        * right. left. rewrite E2. assumption.
-      + right. right. exists e', ce'. split; [right; exact He'|]. split; assumption.
-  Qed.
-
-  Lemma locc_snoc (s : slots H) a : N.of_nat (length s) <= 2 ^ 63 -> no_empty_root s ->
-    (forall c0 r0 o0, locc H HO s c0 r0 o0 -> locc H HO (s ++ [Some a]) c0 r0 o0) /\
-    (forall c0 r0 o0, locc H HO (s ++ [Some a]) c0 r0 o0 ->
-                      In a (cleaves H c0) \/ locc H HO s c0 r0 o0) /\
-    no_empty_root (s ++ [Some a]).
-  Proof.
-    intros Hb Hne. destruct (step_data_ex H HO s a [] Hb) as (ch & un & SD).
-    pose proof (sd_chain H HO s a [] ch un SD) as Hc.
-    assert (Hch : forall e, In e ch -> snd e <> None).
-    { intros e He. apply Hne. apply (step_in_forest H HO s a [] ch un e SD).
-      apply in_or_app. left. exact He. }
-    pose proof (sd_coord H HO s a [] ch un SD) as Ec. unfold ecoord, xc in Ec.
-    cbn [StumpAdd.erow StumpAddData.elo fst snd] in Ec. injection Ec as Ec.
-    set (n := num_leaves s) in *.
-    set (top := (length ch, last_lo H ch n, Some (merge ch (CLeaf a)))) in *.
-    assert (Htop : In top (forest HO (s ++ [Some a])))
-      by (apply (step_in_forest' H HO s a [] ch un top SD); left; reflexivity).
-    destruct (merge_occ_bwd n ch 0%nat (CLeaf a) Hc Hch) as [_ B2]. cbn [Nat.add] in B2.
-    split; [|split].
-    - intros c0 r0 o0 (k & lo & c & He & Ho).
-      apply (step_in_forest H HO s a [] ch un _ SD) in He. apply in_app_or in He as [He|He].
-      + exists (length ch), (last_lo H ch n), (merge ch (CLeaf a)). split; [exact Htop|].
-        rewrite Ec. exact (B2 (k, lo, Some c) c c0 r0 o0 He eq_refl Ho).
-      + exists k, lo, c. split; [|exact Ho].
-        apply (step_in_forest' H HO s a [] ch un _ SD). right. exact He.
-    - intros c0 r0 o0 (k & lo & c & He & Ho).
-      apply (step_in_forest' H HO s a [] ch un _ SD) in He. destruct He as [He|He].
-      + unfold top in He. injection He as -> -> ->. fold n in Ho. rewrite Ec in Ho.
-        destruct (merge_occ_fwd n ch 0%nat (CLeaf a) Hc Hch c0 r0 o0 Ho)
-          as [Hi|[Ho'|(e & ce & He & Hse & Ho')]].
-        * left. apply Hi. left. reflexivity.
-        * left. inversion Ho'; subst. left. reflexivity.
-        * right. destruct e as [[k lo] t]. cbn [snd] in Hse. subst t.
-          exists k, lo, ce. split; [|exact Ho'].
-          apply (step_in_forest H HO s a [] ch un _ SD). apply in_or_app. left. exact He.
-      + right. exists k, lo, c. split; [|exact Ho].
-        apply (step_in_forest H HO s a [] ch un _ SD). apply in_or_app. right. exact He.
-    - intros e He. apply (step_in_forest' H HO s a [] ch un _ SD) in He. destruct He as [->|He].
-      + discriminate.
-      + apply Hne. apply (step_in_forest H HO s a [] ch un _ SD). apply in_or_app. right. exact He.
-  Qed.
-
-  Lemma locc_adds : forall adds (s : slots H),
-    N.of_nat (length s + length adds) <= 2 ^ 63 -> no_empty_root s ->
-    (forall c0 r0 o0, locc H HO s c0 r0 o0 -> locc H HO (s ++ map Some adds) c0 r0 o0) /\
-    (forall c0 r0 o0, locc H HO (s ++ map Some adds) c0 r0 o0 ->
-                      (exists a, In a adds /\ In a (cleaves H c0)) \/ locc H HO s c0 r0 o0) /\
-    no_empty_root (s ++ map Some adds).
-  Proof.
-    induction adds as [|a adds IH]; intros s Hb Hne.
-    - cbn [map]. rewrite app_nil_r. split; [auto|]. split; [auto|exact Hne].
-    - cbn [length] in Hb.
-      destruct (locc_snoc s a ltac:(lia) Hne) as (S1 & S2 & S3).
-      assert (Hb' : N.of_nat (length (s ++ [Some a]) + length adds) <= 2 ^ 63).
-      { rewrite app_length. cbn [length]. lia. }
-      destruct (IH (s ++ [Some a]) Hb' S3) as (I1 & I2 & I3).
-      replace (s ++ map Some (a :: adds)) with ((s ++ [Some a]) ++ map Some adds)
-        by (rewrite <- app_assoc; reflexivity).
-      split; [|split; [|exact I3]].
-      + intros c0 r0 o0 Hl. apply I1, S1, Hl.
-      + intros c0 r0 o0 Hl. destruct (I2 c0 r0 o0 Hl) as [(b & Hb1 & Hb2)|Hl'].
-        * left. exists b. split; [right; exact Hb1|exact Hb2].
-        * destruct (S2 c0 r0 o0 Hl') as [Ha|Hl''].
-          -- left. exists a. split; [left; reflexivity|exact Ha].
-          -- right. exact Hl''.
-  Qed.
-End AddOcc.
-
 (** * 4. The update data of the additions in terms of occurrences *)
 
 Section AddData.
@@ -660,33 +546,6 @@ Section AddData.
     unfold new_add. apply Permutation_map, RefTheory.sortK_perm.
   Qed.
 End AddData.
-
-Section NoDestroy.
-  Variable H : Type.
-  Variable HO : ops H.
-
-  Lemma td_go_nil n R : forall fuel h (ts : list (StumpAdd.entry H)),
-    (forall e, In e ts -> snd e <> None) -> td_go H n R fuel h ts = [].
-  Proof.
-    induction fuel as [|f IH]; intros h ts Hne; [reflexivity|]. cbn [td_go].
-    destruct (N.testbit n (N.of_nat h)); [|reflexivity].
-    destruct ts as [|[[k lo] t] rest]; [reflexivity|].
-    destruct t as [c|]; [|exfalso; exact (Hne _ (or_introl eq_refl) eq_refl)].
-    cbn [app]. apply IH. intros e He. apply Hne. right. exact He.
-  Qed.
-
-  Lemma to_destroy_nil R : forall adds (s : slots H),
-    N.of_nat (length s + length adds) <= 2 ^ 63 -> no_empty_root H HO s ->
-    to_destroy HO R s adds = [].
-  Proof.
-    induction adds as [|a adds IH]; intros s Hb Hne; [reflexivity|].
-    cbn [to_destroy]. cbn [length] in Hb. rewrite trailing_destroyed_go, td_go_nil.
-    - cbn [app]. apply IH.
-      + rewrite app_length. cbn [length]. lia.
-      + exact (proj2 (proj2 (locc_snoc H HO s a ltac:(lia) Hne))).
-    - intros e He. apply Hne. apply in_rev. exact He.
-  Qed.
-End NoDestroy.
 
 (** * 5. The helpers of [Proof.Update] on well-formed inputs *)
 
@@ -1098,7 +957,7 @@ Section UpaGraph.
   Qed.
 End UpaGraph.
 
-(** * 6. Addition-only blocks on a forest without empty roots *)
+(** * 6. Auxiliary facts *)
 
 Lemma pu_zip_map {X H} (f : X -> N) (h : X -> H) (l : list X) :
   zip_hp (map f l) (map h l) = map (fun x => (f x, h x)) l.
@@ -1178,7 +1037,979 @@ Section Aux.
   Qed.
 End Aux.
 
-Section AddOnly.
+
+(** * [DetectOffset]: two positions of one aligned block of the forest lie in the same tree *)
+
+Lemma do_land_pow2 t n : N.land (2 ^ t) n = if N.testbit n t then 2 ^ t else 0.
+Proof.
+  apply N.bits_inj. intros i. rewrite N.land_spec, N.pow2_bits_eqb.
+  destruct (N.eqb_spec t i) as [->|Hne].
+  - destruct (N.testbit n i) eqn:E; cbn [andb]; [rewrite N.pow2_bits_eqb, N.eqb_refl; reflexivity|].
+    rewrite N.bits_0. reflexivity.
+  - cbn [andb]. destruct (N.testbit n t); [rewrite N.pow2_bits_eqb|rewrite N.bits_0; reflexivity].
+    symmetry. apply N.eqb_neq. exact Hne.
+Qed.
+
+Lemma do_bit_div x t : x / 2 ^ t = 2 * (x / 2 ^ (t + 1)) + N.b2n (N.testbit x t).
+Proof.
+  rewrite N.testbit_spec'. rewrite N.pow_add_r, N.pow_1_r.
+  rewrite <- N.div_div by (try apply pow2_nz; lia).
+  apply N.div_mod. lia.
+Qed.
+
+Lemma do_mod_lt x t : (x mod 2 ^ (t + 1) <? 2 ^ t) = negb (N.testbit x t).
+Proof.
+  rewrite N.pow_add_r, N.pow_1_r, N.mod_mul_r by (try apply pow2_nz; lia).
+  rewrite <- N.testbit_spec'. pose proof (N.mod_lt x (2 ^ t) (pow2_nz t)) as Hm.
+  revert Hm. generalize (x mod 2 ^ t). generalize (2 ^ t). intros P m Hm.
+  destruct (N.testbit x t); cbn [N.b2n negb].
+  - apply N.ltb_ge. lia.
+  - apply N.ltb_lt. lia.
+Qed.
+
+Lemma do_block_lt lo j a n : lo / 2 ^ j = a -> (a + 1) * 2 ^ j <= n -> lo < n.
+Proof.
+  intros E Hb. pose proof (N.div_mod lo (2 ^ j) (pow2_nz j)) as Hd.
+  pose proof (N.mod_lt lo (2 ^ j) (pow2_nz j)) as Hm. rewrite E in Hd.
+  revert Hd Hm Hb. generalize (lo mod 2 ^ j). generalize (2 ^ j). intros P m Hd Hm Hb. nia.
+Qed.
+
+Lemma do_level_ge n lo j a t : lo / 2 ^ j = a -> (a + 1) * 2 ^ j <= n ->
+  n / 2 ^ (t + 1) = lo / 2 ^ (t + 1) -> j <= t.
+Proof.
+  intros E Hb Q. destruct (N.le_gt_cases j t) as [Hle|Hgt]; [exact Hle|exfalso].
+  assert (Ej : j = (t + 1) + (j - (t + 1))) by lia.
+  assert (Hn : n / 2 ^ j = a).
+  { rewrite <- E. rewrite Ej, N.pow_add_r, <- !N.div_div by apply pow2_nz. rewrite Q. reflexivity. }
+  pose proof (do_block_lt n j a n Hn Hb). lia.
+Qed.
+
+Lemma do_same_bit lo1 lo2 j a t : lo1 / 2 ^ j = a -> lo2 / 2 ^ j = a -> j <= t ->
+  N.testbit lo1 t = N.testbit lo2 t.
+Proof.
+  intros H1 H2 Hjt. replace t with ((t - j) + j) by lia. rewrite <- !N.div_pow2_bits, H1, H2.
+  reflexivity.
+Qed.
+
+Lemma do_step_Q n lo t : lo < n -> n / 2 ^ (t + 1) = lo / 2 ^ (t + 1) ->
+  N.testbit n t && negb (N.testbit lo t) = false -> n / 2 ^ t = lo / 2 ^ t.
+Proof.
+  intros Hlt Q Ht. pose proof (N.div_le_mono lo n (2 ^ t) (pow2_nz t) ltac:(lia)) as Hm.
+  rewrite (do_bit_div n t), (do_bit_div lo t), Q in *.
+  revert Hm Ht. generalize (lo / 2 ^ (t + 1)). intros q.
+  destruct (N.testbit n t), (N.testbit lo t); cbn [N.b2n andb negb]; intros; try discriminate; lia.
+Qed.
+
+Lemma do_A p nr t : nr < 64 -> t <= 63 ->
+  and64 (shl p nr) (maxPosition t) = (p * 2 ^ nr) mod 2 ^ (t + 1).
+Proof.
+  intros Hnr Ht. change (maxPosition t) with (mask t). rewrite land_mask by exact Ht.
+  rewrite shl_mod by exact Hnr. rewrite W_eq. apply mod_mod_pow2. lia.
+Qed.
+
+Lemma do_sub p nr t : p < W -> t <= 63 ->
+  (sub64 p (2 ^ t) * 2 ^ nr) mod 2 ^ t = (p * 2 ^ nr) mod 2 ^ t.
+Proof.
+  intros Hp Ht. unfold sub64. rewrite wrap_mod.
+  assert (HT : 2 ^ t < W) by (apply pow2_lt_W; exact Ht).
+  pose proof (N.div_mod (p + W - 2 ^ t) W ltac:(rewrite W_eq; apply pow2_nz)) as Hd.
+  set (q := (p + W - 2 ^ t) / W) in *. set (p' := (p + W - 2 ^ t) mod W) in *.
+  assert (EW : W = 2 ^ (64 - t) * 2 ^ t).
+  { rewrite W_eq, <- N.pow_add_r. f_equal. lia. }
+  pose proof (UtilsGeom.pow2_pos (64 - t)) as Hp1.
+  set (B := 2 ^ (64 - t) - 1).
+  assert (EA : 2 ^ (64 - t) = B + 1) by (unfold B; lia).
+  assert (E1 : p + B * 2 ^ t = q * (B + 1) * 2 ^ t + p').
+  { rewrite EW, EA in Hd. clearbody B q p'. clear - Hd HT EW EA.
+    assert (2 ^ t <= (B + 1) * 2 ^ t) by nia.
+    replace (p + (B + 1) * 2 ^ t - 2 ^ t) with (p + B * 2 ^ t) in Hd by nia. lia. }
+  assert (E : p' * 2 ^ nr + (q * (B + 1) * 2 ^ nr) * 2 ^ t
+              = p * 2 ^ nr + (B * 2 ^ nr) * 2 ^ t).
+  { transitivity ((q * (B + 1) * 2 ^ t + p') * 2 ^ nr); [ring|]. rewrite <- E1. ring. }
+
+  rewrite <- (N.mod_add (p' * 2 ^ nr) (q * (B + 1) * 2 ^ nr) (2 ^ t) (pow2_nz t)).
+  rewrite E. apply N.mod_add, pow2_nz.
+Qed.
+
+Lemma do_u8z t : t < 256 -> u8z (Z.of_N t) = t.
+Proof. intros Ht. unfold u8z. rewrite Z.mod_small by lia. apply N2Z.id. Qed.
+
+Lemma do_inv_down x y t : 1 <= t -> x mod 2 ^ (t + 1) = y mod 2 ^ (t + 1) ->
+  x mod 2 ^ (t - 1 + 1) = y mod 2 ^ (t - 1 + 1).
+Proof.
+  intros Ht E. replace (t - 1 + 1) with t by lia.
+  rewrite <- (mod_mod_pow2 x (t + 1) t), <- (mod_mod_pow2 y (t + 1) t) by lia. rewrite E. reflexivity.
+Qed.
+
+Definition do_first (r : option (N * N * N)) : option N := option_map (fun x => fst (fst x)) r.
+
+Lemma do_loop_rel n j a lo1 lo2 nr1 nr2 :
+  nr1 < 64 -> nr2 < 64 -> lo1 / 2 ^ j = a -> lo2 / 2 ^ j = a -> (a + 1) * 2 ^ j <= n ->
+  forall fuel t p1 p2 b, t <= 63 -> (N.to_nat t < fuel)%nat -> p1 < W -> p2 < W ->
+    (p1 * 2 ^ nr1) mod 2 ^ (t + 1) = lo1 mod 2 ^ (t + 1) ->
+    (p2 * 2 ^ nr2) mod 2 ^ (t + 1) = lo2 mod 2 ^ (t + 1) ->
+    n / 2 ^ (t + 1) = lo1 / 2 ^ (t + 1) ->
+    do_first (DetectOffset_loop fuel p1 nr1 n (Z.of_N t) b)
+    = do_first (DetectOffset_loop fuel p2 nr2 n (Z.of_N t) b) /\
+    do_first (DetectOffset_loop fuel p1 nr1 n (Z.of_N t) b) <> None.
+Proof.
+  intros Hnr1 Hnr2 E1 E2 Hb.
+  pose proof (do_block_lt lo1 j a n E1 Hb) as Hlt1.
+  induction fuel as [|f IH]; intros t p1 p2 b Ht Hf Hp1 Hp2 I1 I2 Q; [exfalso; clear - Hf; lia|].
+  pose proof (do_level_ge n lo1 j a t E1 Hb Q) as Hjt.
+  cbn [DetectOffset_loop]. rewrite (do_u8z t) by (clear - Ht; lia).
+  rewrite (do_A p1 nr1 t Hnr1 Ht), (do_A p2 nr2 t Hnr2 Ht), I1, I2.
+  unfold maxLeafCount. rewrite (shl_1 t Ht). unfold and64. rewrite do_land_pow2.
+  assert (T1 : (lo1 mod 2 ^ (t + 1) <? (if N.testbit n t then 2 ^ t else 0))
+               = N.testbit n t && negb (N.testbit lo1 t)).
+  { destruct (N.testbit n t); [apply do_mod_lt|]. cbn [andb]. apply N.ltb_ge, N.le_0_l. }
+  assert (T2 : (lo2 mod 2 ^ (t + 1) <? (if N.testbit n t then 2 ^ t else 0))
+               = N.testbit n t && negb (N.testbit lo1 t)).
+  { rewrite (do_same_bit lo1 lo2 j a t E1 E2 Hjt).
+    destruct (N.testbit n t); [apply do_mod_lt|]. cbn [andb]. apply N.ltb_ge, N.le_0_l. }
+  rewrite T1, T2.
+  destruct (N.testbit n t && negb (N.testbit lo1 t)) eqn:Etest.
+  - cbn. split; [reflexivity|discriminate].
+  - pose proof (do_step_Q n lo1 t Hlt1 Q Etest) as Q'.
+    assert (Ht1 : 1 <= t).
+    { destruct (N.eq_dec t 0) as [Et0|Hn0]; [|clear - Hn0; lia]. exfalso. subst t.
+      rewrite N.pow_0_r, !N.div_1_r in Q'. clear - Q' Hlt1. lia. }
+    destruct (Z.ltb_spec (Z.of_N t) 0) as [Hc|_]; [exfalso; clear - Hc; lia|].
+    rewrite N2Z.id. rewrite (shl_1 t Ht), do_land_pow2.
+    replace (Z.of_N t - 1)%Z with (Z.of_N (t - 1)) by (clear - Ht1; lia).
+    assert (Et : t - 1 + 1 = t) by (clear - Ht1; lia).
+    assert (Q'' : n / 2 ^ (t - 1 + 1) = lo1 / 2 ^ (t - 1 + 1)) by (rewrite Et; exact Q').
+    assert (Ht' : t - 1 <= 63) by (clear - Ht; lia).
+    assert (Hf' : (N.to_nat (t - 1) < f)%nat) by (clear - Hf Ht1; lia).
+    assert (HW : W <> 0) by (rewrite W_eq; apply pow2_nz).
+    destruct (N.testbit n t).
+    + destruct (N.eqb_spec (2 ^ t) 0) as [Hc|_]; [exfalso; exact (pow2_nz t Hc)|].
+      apply IH; try assumption.
+      * unfold sub64. rewrite wrap_mod. apply N.mod_lt, HW.
+      * unfold sub64. rewrite wrap_mod. apply N.mod_lt, HW.
+      * rewrite Et, (do_sub p1 nr1 t Hp1 Ht).
+        pose proof (do_inv_down _ _ t Ht1 I1) as D. rewrite Et in D. exact D.
+      * rewrite Et, (do_sub p2 nr2 t Hp2 Ht).
+        pose proof (do_inv_down _ _ t Ht1 I2) as D. rewrite Et in D. exact D.
+    + rewrite N.eqb_refl. apply IH; try assumption.
+      * exact (do_inv_down _ _ t Ht1 I1).
+      * exact (do_inv_down _ _ t Ht1 I2).
+Qed.
+
+Lemma do_init h r o : r <= h -> (gpos h r o * 2 ^ r) mod 2 ^ (h + 1) = (o * 2 ^ r) mod 2 ^ (h + 1).
+Proof.
+  intros Hr. unfold gpos, gstart.
+  assert (E : (2 ^ (h + 1) - 2 ^ (h + 1 - r) + o) * 2 ^ r = o * 2 ^ r + (2 ^ r - 1) * 2 ^ (h + 1)).
+  { assert (E1 : 2 ^ (h + 1) = 2 ^ (h + 1 - r) * 2 ^ r) by (rewrite <- N.pow_add_r; f_equal; lia).
+    pose proof (UtilsGeom.pow2_pos r) as Hp. pose proof (UtilsGeom.pow2_pos (h + 1 - r)) as Hp'.
+    rewrite N.mul_add_distr_r, N.mul_sub_distr_r, <- E1, N.mul_sub_distr_r, N.mul_1_l.
+    rewrite (N.mul_comm (2 ^ r) (2 ^ (h + 1))).
+    assert (2 ^ (h + 1) <= 2 ^ (h + 1) * 2 ^ r) by nia. lia. }
+  rewrite E. apply N.mod_add, pow2_nz.
+Qed.
+
+Lemma subtree_same_block_h n h r1 o1 r2 o2 j a : h <= 63 -> n <= 2 ^ h ->
+  r1 <= h -> o1 < 2 ^ (h - r1) -> r2 <= h -> o2 < 2 ^ (h - r2) ->
+  (o1 * 2 ^ r1) / 2 ^ j = a -> (o2 * 2 ^ r2) / 2 ^ j = a -> (a + 1) * 2 ^ j <= n ->
+  do_first (DetectOffset_loop 70 (gpos h r1 o1) r1 n (Z.of_N h) 0)
+  = do_first (DetectOffset_loop 70 (gpos h r2 o2) r2 n (Z.of_N h) 0).
+Proof.
+  intros Hh Hup Hr1 Ho1 Hr2 Ho2 E1 E2 Hb.
+  pose proof (do_block_lt _ j a n E1 Hb) as Hlt1.
+  assert (Q : n / 2 ^ (h + 1) = o1 * 2 ^ r1 / 2 ^ (h + 1)).
+  { assert (Hlt : n < 2 ^ (h + 1)).
+    { rewrite N.pow_add_r, N.pow_1_r. pose proof (UtilsGeom.pow2_pos h) as Hp. clear - Hp Hup. lia. }
+    rewrite !N.div_small by (clear - Hlt Hlt1; lia). reflexivity. }
+  assert (Hr1' : r1 < 64) by (clear - Hr1 Hh; lia).
+  assert (Hr2' : r2 < 64) by (clear - Hr2 Hh; lia).
+  assert (Hfu : (N.to_nat h < 70)%nat) by (clear - Hh; lia).
+  exact (proj1 (do_loop_rel n j a (o1 * 2 ^ r1) (o2 * 2 ^ r2) r1 r2 Hr1' Hr2' E1 E2 Hb
+              70%nat h (gpos h r1 o1) (gpos h r2 o2) 0 Hh Hfu
+              (gpos_lt_W h r1 o1 Hh Hr1 Ho1) (gpos_lt_W h r2 o2 Hh Hr2 Ho2)
+              (do_init h r1 o1 Hr1) (do_init h r2 o2 Hr2) Q)).
+Qed.
+
+Lemma do_first_subtree r : match r with Some (b, _, _) => b | None => 0 end
+                           = match do_first r with Some b => b | None => 0 end.
+Proof. destruct r as [[[b x] y]|]; reflexivity. Qed.
+
+Theorem subtree_same_block n r1 o1 r2 o2 j a : n <= 2 ^ 63 ->
+  r1 <= TreeRows n -> o1 < 2 ^ (TreeRows n - r1) -> r2 <= TreeRows n -> o2 < 2 ^ (TreeRows n - r2) ->
+  (o1 * 2 ^ r1) / 2 ^ j = a -> (o2 * 2 ^ r2) / 2 ^ j = a -> (a + 1) * 2 ^ j <= n ->
+  subtree_of (gpos (TreeRows n) r1 o1) n = subtree_of (gpos (TreeRows n) r2 o2) n.
+Proof.
+  intros Hn Hr1 Ho1 Hr2 Ho2 E1 E2 Hb.
+  pose proof (TreeRows_le_63 n Hn) as Hh. pose proof (TreeRows_upper n) as Hup.
+  unfold subtree_of, DetectOffset. cbv zeta.
+  rewrite (DetectRow_gpos _ r1 o1 Hh Hr1 Ho1), (DetectRow_gpos _ r2 o2 Hh Hr2 Ho2).
+  rewrite !do_first_subtree.
+  rewrite (subtree_same_block_h n (TreeRows n) r1 o1 r2 o2 j a Hh Hup Hr1 Ho1 Hr2 Ho2 E1 E2 Hb).
+  reflexivity.
+Qed.
+
+(** * [getNewPositions] with one destroyed root: the lift of coordinates *)
+
+Definition pf_ok (n : N) (d : coord) : Prop :=
+  (snd d / 2 + 1) * 2 ^ (N.of_nat (fst d) + 1) <= n.
+Definition cinf (n : N) (x : coord) : Prop := (snd x + 1) * 2 ^ N.of_nat (fst x) <= n.
+
+Lemma pu_anc_block d x : anc (S (fst d), snd d / 2) x = true ->
+  (fst x <= fst d)%nat /\ snd x / 2 ^ N.of_nat (S (fst d) - fst x) = snd d / 2.
+Proof.
+  unfold anc. cbn [fst snd]. intros E. apply andb_true_iff in E as [E1 E2].
+  apply Nat.ltb_lt in E1. apply N.eqb_eq in E2. split; [lia|exact E2].
+Qed.
+
+Lemma pu_isAnc_anc R d x : (R <= 63)%nat -> (fst d < R)%nat -> cvalid R d -> cvalid R x ->
+  isAncestor (Parent (cpos R d) (N.of_nat R)) (cpos R x) (N.of_nat R)
+  = anc (S (fst d), snd d / 2) x.
+Proof.
+  intros HR Hd [Hd1 Hd2] [Hx1 Hx2]. rewrite !cpos_gpos.
+  rewrite Parent_gpos by (try assumption; lia).
+  assert (Hpo : (snd d / 2 < 2 ^ (N.of_nat R - (N.of_nat (fst d) + 1)))%N).
+  { apply N.div_lt_upper_bound; [lia|]. rewrite <- N.pow_succ_r'.
+    replace (N.succ (N.of_nat R - (N.of_nat (fst d) + 1)))%N
+      with (N.of_nat R - N.of_nat (fst d))%N by lia. exact Hd2. }
+  rewrite isAncestor_gpos by (try assumption; lia).
+  unfold anc. cbn [fst snd].
+  replace (N.of_nat (fst d) + 1 - N.of_nat (fst x))%N with (N.of_nat (S (fst d) - fst x)) by lia.
+  f_equal. destruct (Nat.ltb_spec (fst x) (S (fst d))), (N.ltb_spec (N.of_nat (fst x)) (N.of_nat (fst d) + 1));
+    try reflexivity; lia.
+Qed.
+
+Lemma pu_lxor1_div o k : 1 <= k -> N.lxor o 1 / 2 ^ k = o / 2 ^ k.
+Proof.
+  intros Hk. replace k with (1 + (k - 1)) by lia.
+  rewrite N.pow_add_r, N.pow_1_r, <- !N.div_div by (try apply pow2_nz; lia). f_equal.
+  rewrite lxor_1. destruct (N.even o) eqn:Ev.
+  - apply N.even_spec in Ev as [m ->]. rewrite N.mul_comm, N.div_mul by lia.
+    replace (m * 2 + 1) with (1 + m * 2) by lia. rewrite N.div_add by lia. reflexivity.
+  - assert (Ho : N.odd o = true) by (rewrite <- N.negb_even, Ev; reflexivity).
+    apply N.odd_spec in Ho as [m ->]. replace (2 * m + 1 - 1) with (m * 2) by lia.
+    rewrite N.div_mul by lia. replace (2 * m + 1) with (1 + m * 2) by lia.
+    rewrite N.div_add by lia. reflexivity.
+Qed.
+
+(** a root of the forest does not lie below the parent of a destroyed root *)
+Lemma pu_root_not_under n d x : pf_ok n d -> is_root_c n (cN x) = true ->
+  anc (S (fst d), snd d / 2) x = false.
+Proof.
+  intros Hpf Hroot. destruct (anc (S (fst d), snd d / 2) x) eqn:Ea; [exfalso|reflexivity].
+  apply pu_anc_block in Ea as [Hr Eq]. unfold pf_ok in Hpf.
+  set (k := N.of_nat (S (fst d) - fst x)) in *. set (q := snd d / 2) in *.
+  assert (Hk : 1 <= k) by (unfold k; lia).
+  apply (pps_root_sib_out n (N.of_nat (fst x)) (snd x) Hroot).
+  unfold in_forest. apply N.leb_le.
+  pose proof (pu_lxor1_div (snd x) k Hk) as El. rewrite Eq in El.
+  pose proof (N.div_mod (N.lxor (snd x) 1) (2 ^ k) (pow2_nz k)) as Hdm.
+  pose proof (N.mod_lt (N.lxor (snd x) 1) (2 ^ k) (pow2_nz k)) as Hml. rewrite El in Hdm.
+  assert (Epow : 2 ^ (N.of_nat (fst d) + 1) = 2 ^ k * 2 ^ N.of_nat (fst x)).
+  { rewrite <- N.pow_add_r. f_equal. unfold k. lia. }
+  rewrite Epow in Hpf. clearbody k q.
+  revert Hdm Hml Hpf. generalize (N.lxor (snd x) 1 mod 2 ^ k), (N.lxor (snd x) 1), (2 ^ k),
+    (2 ^ N.of_nat (fst x)). intros m L P Q Hdm Hml Hpf. clear - Hdm Hml Hpf. nia.
+Qed.
+
+(** a position below the parent of a destroyed root is in the tree of that root *)
+Lemma pu_same_subtree R n d x : (R <= 63)%nat -> n <= 2 ^ 63 -> N.of_nat R = TreeRows n ->
+  cvalid R d -> cvalid R x -> pf_ok n d -> anc (S (fst d), snd d / 2) x = true ->
+  subtree_of (cpos R d) n = subtree_of (cpos R x) n.
+Proof.
+  intros HR Hn ER [Hd1 Hd2] [Hx1 Hx2] Hpf Ea. apply pu_anc_block in Ea as [Hr Eq].
+  rewrite !cpos_gpos, ER. rewrite ER in Hd2, Hx2.
+  assert (Hd1' : N.of_nat (fst d) <= TreeRows n) by lia.
+  assert (Hx1' : N.of_nat (fst x) <= TreeRows n) by lia.
+  apply (subtree_same_block n _ _ _ _ (N.of_nat (fst d) + 1) (snd d / 2) Hn Hd1' Hd2 Hx1' Hx2).
+  - rewrite N.pow_add_r, N.pow_1_r, <- N.div_div by (try apply pow2_nz; lia).
+    rewrite N.div_mul by apply pow2_nz. reflexivity.
+  - rewrite <- Eq. replace (N.of_nat (fst d) + 1) with (N.of_nat (fst x) + N.of_nat (S (fst d) - fst x)) by lia.
+    rewrite N.pow_add_r, <- N.div_div by apply pow2_nz. rewrite N.div_mul by apply pow2_nz. reflexivity.
+  - exact Hpf.
+Qed.
+
+Lemma pu_gnp_targets_single R n d x : (R <= 63)%nat -> n <= 2 ^ 63 -> N.of_nat R = TreeRows n ->
+  (fst d < R)%nat -> cvalid R d -> cvalid R x -> cinf n x -> pf_ok n d ->
+  gnp_targets [cpos R d] (cpos R x) n (N.of_nat (fst x)) (N.of_nat R) = cpos R (lift1 d x).
+Proof.
+  intros HR Hn ER Hd Hvd Hvx Hix Hpf.
+  rewrite <- (lift1_bridge R d x HR Hd Hvd Hvx), (pu_isAnc_anc R d x HR Hd Hvd Hvx).
+  cbn [gnp_targets].
+  assert (Eroot : isRootPositionOnRow (cpos R x) n (N.of_nat (fst x)) = is_root_c n (cN x)).
+  { change (cpos R x) with (g (N.of_nat R) (cN x)). rewrite ER.
+    apply (cc_isRoot n (TreeRows n) (TreeRows_le_63 n Hn) (TreeRows_upper n) eq_refl (cN x)).
+    unfold inf, in_forest, cN. cbn [fst snd]. apply N.leb_le. exact Hix. }
+  rewrite Eroot. destruct (is_root_c n (cN x)) eqn:Er.
+  - rewrite (pu_root_not_under n d x Hpf Er). reflexivity.
+  - destruct (anc (S (fst d), snd d / 2) x) eqn:Ea.
+    + rewrite (pu_same_subtree R n d x HR Hn ER Hvd Hvx Hpf Ea), N.eqb_refl. cbn [negb].
+      rewrite (pu_isAnc_anc R d x HR Hd Hvd Hvx), Ea. reflexivity.
+    + destruct (negb _); [reflexivity|]. rewrite (pu_isAnc_anc R d x HR Hd Hvd Hvx), Ea. reflexivity.
+Qed.
+
+Lemma pu_lift1_cinf n d x : pf_ok n d -> cinf n x -> cinf n (lift1 d x).
+Proof.
+  intros Hpf Hx. unfold lift1. destruct (anc (S (fst d), snd d / 2) x) eqn:Ea; [|exact Hx].
+  apply pu_anc_block in Ea as [Hr Eq]. unfold cinf, pf_ok in *. cbn [fst snd].
+  set (b := N.of_nat (fst d - fst x)).
+  replace (N.of_nat (S (fst d) - fst x)) with (b + 1) in Eq by (unfold b; lia).
+  unfold rmbit. rewrite Eq.
+  assert (Epow : 2 ^ (N.of_nat (fst d) + 1) = 2 ^ b * 2 ^ N.of_nat (S (fst x))).
+  { rewrite <- N.pow_add_r. f_equal. unfold b. lia. }
+  rewrite Epow in Hpf.
+  pose proof (N.mod_lt (snd x) (2 ^ b) (pow2_nz b)) as Hm.
+  revert Hm Hpf. generalize (snd x mod 2 ^ b), (snd d / 2), (2 ^ b), (2 ^ N.of_nat (S (fst x))).
+  intros m q P Q Hm Hpf. clear - Hm Hpf. nia.
+Qed.
+
+Lemma pu_g_le_row h c c' : h <= 63 -> vld h c -> vld h c' -> g h c <= g h c' -> fst c <= fst c'.
+Proof.
+  intros Hh Hv Hv' Hle. destruct (N.eq_dec (g h c) (g h c')) as [E|Hne].
+  - rewrite (pps_g_inj h c c' Hv Hv' E). lia.
+  - assert (H0 : 0 <= 2 ^ h) by lia.
+    apply (pps_g_lt_row 0 h Hh H0 c c' Hv Hv'). lia.
+Qed.
+
+Section Moved.
+  Variable H : Type.
+  Variable HO : ops H.
+  Variable R : nat.
+  Variable n : N.
+  Hypothesis HR : (R <= 63)%nat.
+  Hypothesis Hn : n <= 2 ^ 63.
+  Hypothesis ER : N.of_nat R = TreeRows n.
+
+  Local Notation hp := (hp H).
+  Definition cok (e : coord * H) : Prop :=
+    cvalid R (fst e) /\ cinf n (fst e) /\ op_eqb HO (snd e) (op_empty HO) = false.
+  Definition cposh (e : coord * H) : hp := (cpos R (fst e), snd e).
+  Definition dok (d : coord) : Prop := (fst d < R)%nat /\ cvalid R d /\ pf_ok n d.
+
+  Lemma pu_cvalid_vld x : cvalid R x -> vld (TreeRows n) (cN x).
+  Proof. intros [H1 H2]. unfold vld, cN. cbn [fst snd]. rewrite <- ER. split; [lia|exact H2]. Qed.
+
+  Lemma pu_gnp_loop_single d : dok d -> forall (X : list (coord * H)) row,
+    (forall e, In e X -> cok e) -> SSle (map (fun e => cpos R (fst e)) X) ->
+    (forall e, In e X -> row <= N.of_nat (fst (fst e))) ->
+    gnp_loop HO [cpos R d] (map cposh X) n (N.of_nat R) row true
+    = map (fun e => cposh (lift1 d (fst e), snd e)) X.
+  Proof.
+    intros (Hd & Hvd & Hpf). induction X as [|e X IH]; intros row Hok Hs Hrow; [reflexivity|].
+    destruct (Hok e (or_introl eq_refl)) as (Hv & Hi & Hnz).
+    pose proof (pu_cvalid_vld (fst e) Hv) as Hvl.
+    assert (Erow : gnp_row 300 (cpos R (fst e)) row (N.of_nat R) = N.of_nat (fst (fst e))).
+    { change (cpos R (fst e)) with (g (N.of_nat R) (cN (fst e))). rewrite ER.
+      apply (pu_gnp_row n Hn (cN (fst e)) Hvl 300 row (Hrow e (or_introl eq_refl))).
+      destruct Hvl as [Hvl _]. pose proof (TreeRows_le_63 n Hn). cbn [cN fst] in *. lia. }
+    cbn [map gnp_loop]. change (cposh e) with (cpos R (fst e), snd e). cbn [fst snd].
+    rewrite Hnz, Erow.
+    destruct (N.ltb_spec (N.of_nat R) (N.of_nat (fst (fst e)))) as [Hc|_]; [destruct Hv; lia|].
+    rewrite (pu_gnp_targets_single R n d (fst e) HR Hn ER Hd Hvd Hv Hi Hpf).
+    cbn [orb]. unfold cposh at 2. cbn [fst snd]. f_equal.
+    cbn [map] in Hs. destruct (po_SS_inv _ _ _ Hs) as [Hs' Hle].
+    apply IH; [intros e' He'; apply Hok; right; exact He'|exact Hs'|].
+    intros e' He'. destruct (Hok e' (or_intror He')) as (Hv' & _ & _).
+    assert (Hge : g (TreeRows n) (cN (fst e)) <= g (TreeRows n) (cN (fst e'))).
+    { rewrite <- ER. apply (Hle (cpos R (fst e'))). apply in_map_iff. exists e'. auto. }
+    exact (pu_g_le_row (TreeRows n) _ _ (TreeRows_le_63 n Hn) Hvl (pu_cvalid_vld _ Hv') Hge).
+  Qed.
+
+  Definition lift_e (d : coord) (e : coord * H) : coord * H := (lift1 d (fst e), snd e).
+
+  Lemma pu_lift_cok d e : dok d -> cok e -> cok (lift_e d e).
+  Proof.
+    intros (Hd & Hvd & Hpf) (Hv & Hi & Hnz). unfold cok, lift_e. cbn [fst snd].
+    split; [apply lift1_valid; assumption|]. split; [apply pu_lift1_cinf; assumption|exact Hnz].
+  Qed.
+
+  Lemma pu_sortK_SSle (l : list hp) : SSle (map fst (sortK l)).
+  Proof. apply cc_ascK_SSle, SpecBasics.sortK_asc. Qed.
+
+  Lemma pu_getNewPositions_single d (sl : list hp) (X : list (coord * H)) :
+    dok d -> (forall e, In e X -> cok e) -> Permutation sl (map cposh X) -> SSle (map fst sl) ->
+    Permutation (getNewPositions HO [cpos R d] sl n true) (map cposh (map (lift_e d) X)) /\
+    SSle (map fst (getNewPositions HO [cpos R d] sl n true)).
+  Proof.
+    intros Hd Hok Hp Hs. unfold getNewPositions. split; [|apply pu_sortK_SSle].
+    destruct (Permutation_map_inv _ _ Hp) as (X' & -> & HX').
+    rewrite <- ER.
+    rewrite (pu_gnp_loop_single d Hd X' 0).
+    - eapply Permutation_trans; [apply RefTheory.sortK_perm|].
+      rewrite map_map. change (fun x => cposh (lift_e d x)) with (fun e : coord * H => cposh (lift1 d (fst e), snd e)).
+      apply Permutation_map, Permutation_sym, HX'.
+    - intros e He. apply Hok. exact (Permutation_in _ (Permutation_sym HX') He).
+    - rewrite map_map in Hs. exact Hs.
+    - intros. lia.
+  Qed.
+
+  Lemma pu_moved : forall (D : list coord) (sl : list hp) (X : list (coord * H)),
+    (forall d, In d D -> dok d) -> (forall e, In e X -> cok e) ->
+    Permutation sl (map cposh X) -> SSle (map fst sl) ->
+    let res := fold_left (fun acc del => getNewPositions HO [del] acc n true) (map (cpos R) D) sl in
+    Permutation res (map (fun e => cposh (liftc D (fst e), snd e)) X) /\ SSle (map fst res).
+  Proof.
+    induction D as [|d D IH]; intros sl X HD Hok Hp Hs; cbv zeta.
+    - cbn [map fold_left]. split; [|exact Hs]. unfold liftc. cbn [fold_left].
+      eapply Permutation_trans; [exact Hp|]. apply Permutation_refl'. apply map_ext.
+      intros [x h]. reflexivity.
+    - cbn [map fold_left].
+      destruct (pu_getNewPositions_single d sl X (HD d (or_introl eq_refl)) Hok Hp Hs) as [P1 S1].
+      assert (Hok1 : forall e, In e (map (lift_e d) X) -> cok e).
+      { intros e He. apply in_map_iff in He as (e0 & <- & He0).
+        apply pu_lift_cok; [apply HD; left; reflexivity|apply Hok, He0]. }
+      destruct (IH (getNewPositions HO [cpos R d] sl n true) (map (lift_e d) X)
+                   (fun d' Hd' => HD d' (or_intror Hd')) Hok1 P1 S1) as [P2 S2].
+      cbv zeta in P2, S2. split; [|exact S2].
+      eapply Permutation_trans; [exact P2|]. rewrite map_map. apply Permutation_refl'.
+      apply map_ext. intros [x h]. reflexivity.
+  Qed.
+End Moved.
+
+(** * Occurrences by path; the lift of the coordinates of a whole subtree *)
+
+Definition bN (b : bool) : N := if b then 1 else 0.
+Definition walk (Y : coord) (pi : list bool) : coord := fold_left (fun y b => chd (bN b) y) pi Y.
+
+Lemma walk_app Y p q : walk Y (p ++ q) = walk (walk Y p) q.
+Proof. apply fold_left_app. Qed.
+
+Lemma walk_coord : forall pi Y, (length pi <= fst Y)%nat ->
+  fst (walk Y pi) = (fst Y - length pi)%nat /\ snd (walk Y pi) / 2 ^ N.of_nat (length pi) = snd Y.
+Proof.
+  induction pi as [|b pi IH]; intros Y Hl.
+  - cbn [walk fold_left length]. split; [lia|]. apply N.div_1_r.
+  - cbn [length] in Hl. change (walk Y (b :: pi)) with (walk (chd (bN b) Y) pi).
+    assert (F1 : fst (chd (bN b) Y) = Nat.pred (fst Y)) by reflexivity.
+    assert (F2 : snd (chd (bN b) Y) = 2 * snd Y + bN b) by reflexivity.
+    destruct (IH (chd (bN b) Y)) as [I1 I2]; [rewrite F1; lia|].
+    rewrite F1 in I1. rewrite F2 in I2. split; [rewrite I1; cbn [length]; lia|].
+    cbn [length]. rewrite Nat2N.inj_succ, N.pow_succ_r', N.mul_comm, <- N.div_div by (try apply pow2_nz; lia).
+    rewrite I2. assert (Hb : bN b < 2) by (destruct b; cbn; lia).
+    replace (2 * snd Y + bN b) with (bN b + snd Y * 2) by lia.
+    rewrite N.div_add by lia. rewrite N.div_small by exact Hb. reflexivity.
+Qed.
+
+Lemma walk_liftc D : forall pi Y, (length pi <= fst Y)%nat -> asc_from (fst Y) D ->
+  liftc D (walk Y pi) = walk (liftc D Y) pi.
+Proof.
+  induction pi as [|b pi IH]; intros Y Hl HD; [reflexivity|]. cbn [length] in Hl.
+  change (walk Y (b :: pi)) with (walk (chd (bN b) Y) pi).
+  change (walk (liftc D Y) (b :: pi)) with (walk (chd (bN b) (liftc D Y)) pi).
+  destruct Y as [r o]. cbn [fst] in *.
+  assert (Hb : bN b < 2) by (destruct b; cbn; lia).
+  destruct (liftc_child (bN b) Hb D r o ltac:(lia) HD) as [E _].
+  rewrite <- E. apply IH.
+  - cbn [chd fst]. lia.
+  - cbn [chd fst]. apply (asc_from_weaken D r); [lia|exact HD].
+Qed.
+
+Section Path.
+  Variable H : Type.
+  Local Notation ctree := (ctree H).
+
+  Inductive occp : ctree -> list bool -> ctree -> Prop :=
+  | occp_nil c : occp c [] c
+  | occp_l h l r pi c0 : occp l pi c0 -> occp (CNode h l r) (false :: pi) c0
+  | occp_r h l r pi c0 : occp r pi c0 -> occp (CNode h l r) (true :: pi) c0.
+
+  Lemma occp_trans c p c1 q c2 : occp c p c1 -> occp c1 q c2 -> occp c (p ++ q) c2.
+  Proof.
+    induction 1 as [c|h l r pi c0 _ IH|h l r pi c0 _ IH]; intros H2; cbn [app].
+    - exact H2.
+    - apply occp_l, IH, H2.
+    - apply occp_r, IH, H2.
+  Qed.
+
+  Lemma occp_height c pi c0 : occp c pi c0 -> (length pi + cheight H c0 <= cheight H c)%nat.
+  Proof.
+    induction 1 as [c|h l r pi c0 _ IH|h l r pi c0 _ IH]; cbn [length cheight]; lia.
+  Qed.
+
+  Lemma occp_leaves c pi c0 : occp c pi c0 -> incl (cleaves H c0) (cleaves H c).
+  Proof.
+    induction 1 as [c|h l r pi c0 _ IH|h l r pi c0 _ IH]; [apply incl_refl| |];
+      intros x Hx; cbn [cleaves]; apply in_or_app; [left|right]; apply IH, Hx.
+  Qed.
+
+  Lemma occ_path c r o c0 r0 o0 : occ H c r o c0 r0 o0 ->
+    exists pi, occp c pi c0 /\ walk (r, o) pi = (r0, o0) /\ (length pi <= r)%nat.
+  Proof.
+    induction 1 as [c r o | h l rr r o c0 r0 o0 _ IH | h l rr r o c0 r0 o0 _ IH].
+    - exists []. split; [constructor|]. split; [reflexivity|cbn; lia].
+    - destruct IH as (pi & Hp & Hw & Hl). exists (false :: pi). split; [constructor; exact Hp|].
+      split; [|cbn [length]; lia]. change (walk (S r, o) (false :: pi)) with (walk (chd 0 (S r, o)) pi).
+      unfold chd. cbn [fst snd Nat.pred]. rewrite N.add_0_r. exact Hw.
+    - destruct IH as (pi & Hp & Hw & Hl). exists (true :: pi). split; [constructor; exact Hp|].
+      split; [|cbn [length]; lia]. change (walk (S r, o) (true :: pi)) with (walk (chd 1 (S r, o)) pi).
+      unfold chd. cbn [fst snd Nat.pred]. exact Hw.
+  Qed.
+
+  Lemma path_occ c pi c0 : occp c pi c0 -> forall Y, (length pi <= fst Y)%nat ->
+    occ H c (fst Y) (snd Y) c0 (fst (walk Y pi)) (snd (walk Y pi)).
+  Proof.
+    induction 1 as [c|h l r pi c0 _ IH|h l r pi c0 _ IH]; intros Y Hl.
+    - apply occ_here.
+    - cbn [length] in Hl. destruct Y as [[|k] o]; cbn [fst snd] in *; [lia|].
+      change (walk (S k, o) (false :: pi)) with (walk (chd 0 (S k, o)) pi).
+      unfold chd. cbn [fst snd Nat.pred]. rewrite N.add_0_r.
+      apply occ_left. apply (IH (k, 2 * o)). cbn [fst]. lia.
+    - cbn [length] in Hl. destruct Y as [[|k] o]; cbn [fst snd] in *; [lia|].
+      change (walk (S k, o) (true :: pi)) with (walk (chd 1 (S k, o)) pi).
+      unfold chd. cbn [fst snd Nat.pred].
+      apply occ_right. apply (IH (k, 2 * o + 1)). cbn [fst]. lia.
+  Qed.
+End Path.
+
+Lemma pu_disj_arith (j k m fx : nat) (od oe sx lod loe : N) :
+  (j < k)%nat -> fx = (k - m)%nat -> (m <= k)%nat -> (fx <= j)%nat ->
+  sx / 2 ^ N.of_nat (S j - fx) = od / 2 -> sx / 2 ^ N.of_nat m = oe ->
+  od * p2 j = lod -> oe * p2 k = loe -> loe + p2 k <= lod -> False.
+Proof.
+  intros Hjk Efx Hm Hfx Eq W2 Eod Eoe Hdis.
+  assert (Hq : od / 2 ^ N.of_nat (k - j) = oe).
+  { rewrite <- W2.
+    replace (N.of_nat m) with (N.of_nat (S j - fx) + N.of_nat (m - (S j - fx))) by lia.
+    rewrite N.pow_add_r, <- N.div_div by apply pow2_nz. rewrite Eq.
+    replace (N.of_nat (k - j)) with (1 + N.of_nat (m - (S j - fx))) by lia.
+    rewrite N.pow_add_r, N.pow_1_r, <- N.div_div by (try apply pow2_nz; lia). reflexivity. }
+  pose proof (N.div_mod od (2 ^ N.of_nat (k - j)) (pow2_nz _)) as Hdm.
+  pose proof (N.mod_lt od (2 ^ N.of_nat (k - j)) (pow2_nz _)) as Hml. rewrite Hq in Hdm.
+  assert (Epk : p2 k = 2 ^ N.of_nat (k - j) * p2 j).
+  { unfold p2. rewrite <- N.pow_add_r. f_equal. clear - Hjk. lia. }
+  rewrite Epk in Eoe, Hdis. pose proof (p2_pos j) as Hpos.
+  remember (od mod 2 ^ N.of_nat (k - j)) as mm eqn:Emm.
+  remember (2 ^ N.of_nat (k - j)) as P eqn:EP. remember (p2 j) as Q eqn:EQ.
+  clear - Hdm Hml Eoe Eod Hdis Hpos.
+  rewrite Hdm in Eod. assert (Hlt : mm * Q < P * Q) by (apply N.mul_lt_mono_pos_r; assumption).
+  rewrite <- Eoe, <- Eod in Hdis. lia.
+Qed.
+
+Section StepLift.
+  Variable H : Type.
+  Variable HO : ops H.
+  Local Notation entry := (StumpAdd.entry H).
+  Local Notation erow := (@StumpAdd.erow H).
+  Local Notation elo := (@StumpAddData.elo H).
+  Local Notation ecoord := (@StumpAddData.ecoord H).
+  Local Notation merge := (StumpAddData.merge H HO).
+  Local Notation nones := (@StumpAddData.nones H).
+  Local Notation somes := (@StumpAddData.somes H).
+  Local Notation desc := (@StumpAddData.desc H).
+
+  Lemma locc_path (s : slots H) c0 r0 o0 : locc H HO s c0 r0 o0 <->
+    exists (e : entry) ce pi, In e (forest HO s) /\ snd e = Some ce /\ occp H ce pi c0 /\
+                              walk (ecoord e) pi = (r0, o0) /\ (length pi <= erow e)%nat.
+  Proof.
+    split.
+    - intros (k & lo & c & He & Ho). destruct (occ_path H _ _ _ _ _ _ Ho) as (pi & Hp & Hw & Hl).
+      exists (k, lo, Some c), c, pi. repeat split; assumption.
+    - intros ([[k lo] t] & ce & pi & He & Hs & Hp & Hw & Hl). cbn [snd] in Hs. subst t.
+      exists k, lo, ce. split; [exact He|].
+      pose proof (path_occ H ce pi c0 Hp (ecoord (k, lo, Some ce)) Hl) as Ho.
+      rewrite Hw in Ho. exact Ho.
+  Qed.
+
+  (** the destroyed root of a lower tree does not move the nodes of a higher tree *)
+  Lemma lift1_disj (s : slots H) (ed e : entry) pi :
+    In ed (forest HO s) -> In e (forest HO s) -> (erow ed < erow e)%nat ->
+    (length pi <= erow e)%nat ->
+    lift1 (ecoord ed) (walk (ecoord e) pi) = walk (ecoord e) pi.
+  Proof.
+    intros Hed He Hrow Hl. unfold lift1.
+    destruct (anc (S (fst (ecoord ed)), snd (ecoord ed) / 2) (walk (ecoord e) pi)) eqn:Ea;
+      [exfalso|reflexivity].
+    apply pu_anc_block in Ea as [Hr Eq].
+    destruct (walk_coord pi (ecoord e) Hl) as [W1 W2].
+    destruct ed as [[j lod] td]. destruct e as [[k loe] te].
+    unfold StumpAddData.ecoord, StumpAdd.erow, StumpAddData.elo in *. cbn [fst snd] in *.
+    pose proof (forest_entries_disjoint H HO s k loe te j lod td He Hed Hrow) as Hdis.
+    apply forest_entry in Hed as (_ & _ & Ed & _). apply forest_entry in He as (_ & _ & Ee & _).
+    assert (Eod : lod / 2 ^ N.of_nat j * p2 j = lod).
+    { rewrite Ed. fold (p2 j). rewrite N.div_mul by (apply N.neq_0_lt_0, p2_pos). reflexivity. }
+    assert (Eoe : loe / 2 ^ N.of_nat k * p2 k = loe).
+    { rewrite Ee. fold (p2 k). rewrite N.div_mul by (apply N.neq_0_lt_0, p2_pos). reflexivity. }
+    exact (pu_disj_arith j k (length pi) _ _ _ _ lod loe Hrow W1 Hl Hr Eq W2 Eod Eoe Hdis).
+  Qed.
+
+  Lemma liftc_disj (s : slots H) (e : entry) pi : In e (forest HO s) -> (length pi <= erow e)%nat ->
+    forall D, (forall d, In d D -> exists ed, In ed (forest HO s) /\ d = ecoord ed /\
+                                              (erow ed < erow e)%nat) ->
+    liftc D (walk (ecoord e) pi) = walk (ecoord e) pi.
+  Proof.
+    intros He Hl. induction D as [|d D IH]; intros HD; [reflexivity|].
+    unfold liftc. cbn [fold_left].
+    destruct (HD d (or_introl eq_refl)) as (ed & Hed & -> & Hr).
+    rewrite (lift1_disj s ed e pi Hed He Hr Hl). apply IH. intros d' Hd'. apply HD. right. exact Hd'.
+  Qed.
+
+  Lemma merge_app ch1 ch2 c : merge (ch1 ++ ch2) c = merge ch2 (merge ch1 c).
+  Proof. apply fold_left_app. Qed.
+
+  Lemma repeat_snoc {A} (a : A) k : repeat a k ++ [a] = repeat a (S k).
+  Proof. symmetry. apply repeat_cons. Qed.
+
+  Lemma merge_path : forall ch c, occp H (merge ch c) (repeat true (somes ch)) c.
+  Proof.
+    induction ch as [|e ch IH]; intros c; [constructor|].
+    change (merge (e :: ch) c) with (merge ch (mstep H HO c e)). cbn [StumpAddData.somes].
+    specialize (IH (mstep H HO c e)). unfold mstep in *. destruct (snd e) as [ce|]; [|exact IH].
+    rewrite <- repeat_snoc. eapply occp_trans; [exact IH|]. apply occp_r, occp_nil.
+  Qed.
+
+  Lemma desc_walk : forall ch Y, desc ch Y = walk Y (repeat true (somes ch)).
+  Proof.
+    induction ch as [|e ch IH]; intros Y; [reflexivity|]. cbn [StumpAddData.desc StumpAddData.somes].
+    destruct (snd e); [|apply IH]. rewrite <- repeat_snoc, walk_app, <- IH. reflexivity.
+  Qed.
+
+  Lemma nones_cons_some (e : entry) ch ce : snd e = Some ce -> nones (e :: ch) = nones ch.
+  Proof. intros He. unfold StumpAddData.nones. cbn [flat_map]. rewrite He. reflexivity. Qed.
+
+  (** where a subtree of a popped root of the chain sits after the step *)
+  Lemma chain_coord (s : slots H) n ch1 (e : entry) ch2 ce pi :
+    (forall e', In e' (ch1 ++ e :: ch2) -> In e' (forest HO s)) ->
+    chain_at H n 0 (ch1 ++ e :: ch2) -> snd e = Some ce -> (length pi <= erow e)%nat ->
+    liftc (nones (ch1 ++ e :: ch2)) (walk (ecoord e) pi)
+    = walk (xc n (length (ch1 ++ e :: ch2))) (repeat true (somes ch2) ++ false :: pi).
+  Proof.
+    intros Hin Hc He Hl.
+    pose proof (proj1 (chain_at_app H n ch1 0 (e :: ch2)) Hc) as [Hc1 Hc2]. cbn [Nat.add] in Hc2.
+    pose proof Hc2 as (Hr & _ & _ & Hc2').
+    assert (Hine : In e (forest HO s)) by (apply Hin, in_or_app; right; left; reflexivity).
+    assert (Hlow : forall d, In d (nones ch1) -> exists ed, In ed (forest HO s) /\ d = ecoord ed /\
+                                                            (erow ed < erow e)%nat).
+    { intros d Hd. apply nones_in in Hd as (e1 & He1 & _ & ->). exists e1.
+      split; [apply Hin, in_or_app; left; exact He1|]. split; [reflexivity|].
+      pose proof (chain_at_rows H n ch1 0 e1 Hc1 He1). lia. }
+    assert (Hasc : asc_from (erow e) (nones ch2)).
+    { pose proof (asc_nones H n [] ch2 (S (length ch1)) Hc2' I) as Ha. rewrite app_nil_r in Ha.
+      apply (asc_from_weaken _ (S (length ch1))); [lia|exact Ha]. }
+    rewrite nones_app, (nones_cons_some e ch2 ce He), liftc_app.
+    rewrite (liftc_disj s e pi Hine Hl _ Hlow).
+    rewrite (walk_liftc (nones ch2) pi (ecoord e) Hl Hasc).
+    (* the root *)
+    pose proof (lift_popped H n [] ch1 e ch2 ce Hc He I) as Hp.
+    rewrite app_nil_r, nones_app, (nones_cons_some e ch2 ce He), liftc_app in Hp.
+    change (ecoord e) with (walk (ecoord e) []) in Hp at 1.
+    rewrite (liftc_disj s e [] Hine ltac:(cbn; lia) _ Hlow) in Hp. cbn [walk fold_left] in Hp.
+    rewrite Hp. unfold liftc at 1. cbn [fold_left].
+    rewrite walk_app, <- desc_walk. reflexivity.
+  Qed.
+End StepLift.
+
+Section StepLift2.
+  Variable H : Type.
+  Variable HO : ops H.
+  Local Notation entry := (StumpAdd.entry H).
+  Local Notation erow := (@StumpAdd.erow H).
+  Local Notation ecoord := (@StumpAddData.ecoord H).
+  Local Notation merge := (StumpAddData.merge H HO).
+  Local Notation nones := (@StumpAddData.nones H).
+  Local Notation somes := (@StumpAddData.somes H).
+
+  Lemma occp_leaf_inv a pi c0 : occp H (CLeaf a) pi c0 -> pi = [] /\ c0 = CLeaf a.
+  Proof. intros Ho. inversion Ho; subst. split; reflexivity. Qed.
+
+  (** the occurrences in the tree a chain builds *)
+  Lemma merge_occp_inv : forall ch c Pi c0, occp H (merge ch c) Pi c0 ->
+    incl (cleaves H c) (cleaves H c0) \/
+    (exists pi, Pi = repeat true (somes ch) ++ pi /\ occp H c pi c0) \/
+    (exists ch1 (e : entry) ch2 ce pi, ch = ch1 ++ e :: ch2 /\ snd e = Some ce /\
+        Pi = repeat true (somes ch2) ++ false :: pi /\ occp H ce pi c0).
+  Proof.
+    induction ch as [|e ch IH]; intros c Pi c0 Ho.
+    - right. left. exists Pi. split; [reflexivity|exact Ho].
+    - change (merge (e :: ch) c) with (merge ch (mstep H HO c e)) in Ho.
+      destruct (IH _ _ _ Ho) as [Hi|[(pi & -> & Hp)|(ch1 & e' & ch2 & ce & pi & -> & He' & -> & Hp)]].
+      + left. unfold mstep in Hi. destruct (snd e); [|exact Hi].
+        intros x Hx. apply Hi. cbn [cleaves]. apply in_or_app. right. exact Hx.
+      + unfold mstep in Hp. cbn [StumpAddData.somes]. destruct (snd e) as [ce|] eqn:Ese.
+        * inversion Hp; subst.
+          -- left. intros x Hx. cbn [cleaves]. apply in_or_app. right. exact Hx.
+          -- right. right. exists [], e, ch, ce. eexists. split; [reflexivity|]. split; [exact Ese|].
+             split; [reflexivity|]. assumption.
+          -- right. left. eexists. split; [|eassumption].
+             rewrite <- repeat_snoc, <- app_assoc. reflexivity.
+        * right. left. exists pi. split; [reflexivity|exact Hp].
+      + right. right. exists (e :: ch1), e', ch2, ce, pi. auto.
+  Qed.
+
+  Variable s : slots H.
+  Variable a : H.
+  Variables (rest : list H) (ch un : list entry).
+  Hypothesis SD : step_data H HO s a rest ch un.
+  Local Notation n := (num_leaves s).
+  Local Notation s1 := (s ++ [Some a]).
+  Local Notation Y := (xc n (length ch)).
+  Local Notation top := (length ch, last_lo H ch n, Some (merge ch (CLeaf a))).
+
+  Lemma sl_ch_forest e : In e ch -> In e (forest HO s).
+  Proof. intros He. apply (step_in_forest H HO s a rest ch un e SD), in_or_app. left. exact He. Qed.
+  Lemma sl_un_forest e : In e un -> In e (forest HO s).
+  Proof. intros He. apply (step_in_forest H HO s a rest ch un e SD), in_or_app. right. exact He. Qed.
+  Lemma sl_top : In top (forest HO s1).
+  Proof. apply (step_in_forest' H HO s a rest ch un _ SD). left. reflexivity. Qed.
+  Lemma sl_top_coord : ecoord top = Y.
+  Proof. exact (sd_coord H HO s a rest ch un SD). Qed.
+
+  Lemma sl_un_fixed (e : entry) pi : In e un -> (length pi <= erow e)%nat ->
+    liftc (nones ch) (walk (ecoord e) pi) = walk (ecoord e) pi.
+  Proof.
+    intros He Hl. apply (liftc_disj H HO s e pi (sl_un_forest e He) Hl).
+    intros d Hd. apply nones_in in Hd as (e1 & He1 & _ & ->). exists e1.
+    split; [exact (sl_ch_forest e1 He1)|]. split; [reflexivity|].
+    pose proof (chain_at_rows H n ch 0 e1 (sd_chain H HO s a rest ch un SD) He1).
+    pose proof (sd_un H HO s a rest ch un SD e He). lia.
+  Qed.
+
+  Lemma sl_height (e : entry) ce pi c0 : In e (forest HO s) -> snd e = Some ce -> occp H ce pi c0 ->
+    (length pi <= erow e)%nat.
+  Proof.
+    intros He Hs Hp. destruct e as [[k lo] t]. cbn [snd] in Hs. subst t.
+    apply forest_entry in He as (_ & _ & _ & _ & _ & Ht). symmetry in Ht.
+    pose proof (proj2 (compress_wf H HO k _ ce Ht)). pose proof (occp_height H _ _ _ Hp).
+    unfold StumpAdd.erow. cbn [fst]. lia.
+  Qed.
+
+  (** one addition: every old subtree is in the new forest, at the lifted coordinate *)
+  Lemma step_up c0 r0 o0 : locc H HO s c0 r0 o0 ->
+    locc H HO s1 c0 (fst (liftc (nones ch) (r0, o0))) (snd (liftc (nones ch) (r0, o0))).
+  Proof.
+    intros Hl. apply locc_path in Hl as (e & ce & pi & He & Hs & Hp & Hw & Hlen). rewrite <- Hw.
+    apply (step_in_forest H HO s a rest ch un e SD) in He. apply in_app_or in He as [He|He].
+    - apply in_split in He as (ch1 & ch2 & Ech).
+      pose proof (sd_chain H HO s a rest ch un SD) as Hc. rewrite Ech in Hc.
+      assert (Hin : forall e', In e' (ch1 ++ e :: ch2) -> In e' (forest HO s))
+        by (intros e' He'; apply sl_ch_forest; rewrite Ech; exact He').
+      pose proof (chain_coord H HO s n ch1 e ch2 ce pi Hin Hc Hs Hlen) as Ec. rewrite <- Ech in Ec.
+      rewrite Ec. apply locc_path.
+      exists top, (merge ch (CLeaf a)), (repeat true (somes ch2) ++ false :: pi).
+      split; [exact sl_top|]. split; [reflexivity|].
+      split; [|split; [rewrite sl_top_coord; apply surjective_pairing|]].
+      + rewrite Ech, merge_app. change (merge (e :: ch2) ?c) with (merge ch2 (mstep H HO c e)).
+        unfold mstep at 1. rewrite Hs.
+        eapply occp_trans; [apply merge_path|]. apply occp_l. exact Hp.
+      + unfold StumpAdd.erow. cbn [fst]. rewrite app_length. cbn [length].
+        rewrite Ech, app_length. cbn [length].
+        pose proof (somes_le H ch2).
+        pose proof (proj1 (chain_at_app H n ch1 0 (e :: ch2)) Hc) as [_ (Hr & _)]. cbn [Nat.add] in Hr.
+        rewrite repeat_length. lia.
+    - rewrite (sl_un_fixed e pi He Hlen). apply locc_path. exists e, ce, pi.
+      split; [apply (step_in_forest' H HO s a rest ch un e SD); right; exact He|].
+      split; [exact Hs|]. split; [exact Hp|]. split; [apply surjective_pairing|exact Hlen].
+  Qed.
+
+  (** ... and every subtree of the new forest holds the new leaf or is a lifted old one *)
+  Lemma step_down c0 r1 o1 : locc H HO s1 c0 r1 o1 ->
+    In a (cleaves H c0) \/
+    exists r0 o0, locc H HO s c0 r0 o0 /\ liftc (nones ch) (r0, o0) = (r1, o1).
+  Proof.
+    intros Hl. apply locc_path in Hl as (e & ce & Pi & He & Hs & Hp & Hw & Hlen).
+    apply (step_in_forest' H HO s a rest ch un e SD) in He. destruct He as [->|He].
+    - cbn [snd] in Hs. injection Hs as <-. rewrite sl_top_coord in Hw.
+      destruct (merge_occp_inv ch (CLeaf a) Pi c0 Hp)
+        as [Hi|[(pi & -> & Hp')|(ch1 & e & ch2 & ce & pi & Ech & Hse & -> & Hp')]].
+      + left. apply Hi. left. reflexivity.
+      + left. apply occp_leaf_inv in Hp' as [_ ->]. left. reflexivity.
+      + right. assert (He : In e (forest HO s)) by (apply sl_ch_forest; rewrite Ech; apply in_or_app; right; left; reflexivity).
+        pose proof (sl_height e ce pi c0 He Hse Hp') as Hl.
+        exists (fst (walk (ecoord e) pi)), (snd (walk (ecoord e) pi)). split.
+        * apply locc_path. exists e, ce, pi. split; [exact He|]. split; [exact Hse|]. split; [exact Hp'|].
+          split; [apply surjective_pairing|exact Hl].
+        * rewrite <- surjective_pairing.
+          pose proof (sd_chain H HO s a rest ch un SD) as Hc. rewrite Ech in Hc.
+          assert (Hin : forall e', In e' (ch1 ++ e :: ch2) -> In e' (forest HO s))
+            by (intros e' He'; apply sl_ch_forest; rewrite Ech; exact He').
+          pose proof (chain_coord H HO s n ch1 e ch2 ce pi Hin Hc Hse Hl) as Ec. rewrite <- Ech in Ec.
+          rewrite Ec. exact Hw.
+    - right. exists (fst (walk (ecoord e) Pi)), (snd (walk (ecoord e) Pi)). split.
+      + apply locc_path. exists e, ce, Pi. split; [exact (sl_un_forest e He)|]. split; [exact Hs|].
+        split; [exact Hp|]. split; [apply surjective_pairing|exact Hlen].
+      + rewrite <- surjective_pairing, (sl_un_fixed e Pi He Hlen). exact Hw.
+  Qed.
+End StepLift2.
+
+(** every old subtree after a run of additions: the coordinates lifted over all destroyed roots *)
+Lemma lift_adds {H} (HO : ops H) : forall (adds : list H) (s : slots H),
+  N.of_nat (length s + length adds) <= 2 ^ 63 ->
+  (forall c0 r0 o0, locc H HO s c0 r0 o0 ->
+     locc H HO (s ++ map Some adds) c0 (fst (liftc (to_destroy_c H HO s adds) (r0, o0)))
+                                     (snd (liftc (to_destroy_c H HO s adds) (r0, o0)))) /\
+  (forall c0 r1 o1, locc H HO (s ++ map Some adds) c0 r1 o1 ->
+     (exists a, In a adds /\ In a (cleaves H c0)) \/
+     exists r0 o0, locc H HO s c0 r0 o0 /\ liftc (to_destroy_c H HO s adds) (r0, o0) = (r1, o1)).
+Proof.
+  induction adds as [|a adds IH]; intros s Hb.
+  - cbn [map to_destroy_c]. rewrite app_nil_r. split.
+    + intros c0 r0 o0 Hl. exact Hl.
+    + intros c0 r1 o1 Hl. right. exists r1, o1. split; [exact Hl|reflexivity].
+  - cbn [length] in Hb.
+    destruct (step_data_ex H HO s a adds ltac:(lia)) as (ch & un & SD).
+    rewrite (sd_dest H HO s a adds ch un SD).
+    assert (Hb' : N.of_nat (length (s ++ [Some a]) + length adds) <= 2 ^ 63)
+      by (rewrite app_length; cbn [length]; lia).
+    destruct (IH (s ++ [Some a]) Hb') as [I1 I2].
+    replace (s ++ map Some (a :: adds)) with ((s ++ [Some a]) ++ map Some adds)
+      by (rewrite <- app_assoc; reflexivity).
+    split.
+    + intros c0 r0 o0 Hl. rewrite liftc_app.
+      pose proof (step_up H HO s a adds ch un SD c0 r0 o0 Hl) as Hs.
+      specialize (I1 _ _ _ Hs). rewrite <- surjective_pairing in I1. exact I1.
+    + intros c0 r1 o1 Hl. destruct (I2 c0 r1 o1 Hl) as [(b & Hb1 & Hb2)|(r' & o' & Hl' & El)].
+      * left. exists b. split; [right; exact Hb1|exact Hb2].
+      * destruct (step_down H HO s a adds ch un SD c0 r' o' Hl') as [Ha|(r0 & o0 & Hl0 & E0)].
+        -- left. exists a. split; [left; reflexivity|exact Ha].
+        -- right. exists r0, o0. split; [exact Hl0|]. rewrite liftc_app, E0. exact El.
+Qed.
+
+(** * The destroyed roots are well placed in the final forest *)
+
+Lemma chain_ones {H} n : forall (ch : list (StumpAdd.entry H)) h, chain_at H n h ch ->
+  n mod p2 h = p2 h - 1 ->
+  forall e, In e ch -> n mod p2 (S (StumpAdd.erow H e)) = p2 (S (StumpAdd.erow H e)) - 1.
+Proof.
+  induction ch as [|e0 ch IH]; intros h Hc Hm e He; [destruct He|].
+  destruct Hc as (Hr & _ & Hb & Hc).
+  assert (E : n mod p2 (S h) = p2 (S h) - 1).
+  { rewrite p2_S. rewrite (N.mul_comm 2 (p2 h)), N.mod_mul_r by (try (apply N.neq_0_lt_0, p2_pos); lia).
+    unfold StumpAdd.bit in Hb. pose proof (N.testbit_spec' n (N.of_nat h)) as Hs. rewrite Hb in Hs.
+    cbn [N.b2n] in Hs. fold (p2 h) in Hs. rewrite <- Hs, Hm. pose proof (p2_pos h). lia. }
+  destruct He as [<-|He]; [rewrite Hr; exact E|]. exact (IH (S h) Hc E e He).
+Qed.
+
+Lemma pf_ok_all {H} (HO : ops H) : forall (adds : list H) (s : slots H),
+  N.of_nat (length s + length adds) <= 2 ^ 63 ->
+  forall d, In d (to_destroy_c H HO s adds) -> pf_ok (N.of_nat (length s + length adds)) d.
+Proof.
+  induction adds as [|a adds IH]; intros s Hb d Hd; [destruct Hd|].
+  cbn [length] in Hb.
+  destruct (step_data_ex H HO s a adds ltac:(lia)) as (ch & un & SD).
+  rewrite (sd_dest H HO s a adds ch un SD) in Hd. apply in_app_or in Hd as [Hd|Hd].
+  - apply nones_in in Hd as (e & He & _ & ->).
+    pose proof (sd_chain H HO s a adds ch un SD) as Hc.
+    assert (Hm0 : num_leaves s mod p2 0 = p2 0 - 1) by (rewrite p2_0, N.mod_1_r; reflexivity).
+    pose proof (chain_ones (num_leaves s) ch 0%nat Hc Hm0 e He) as Hones.
+    assert (Hlo : elo H e = 2 * (num_leaves s / p2 (S (StumpAdd.erow H e))) * p2 (StumpAdd.erow H e)).
+    { clear - Hc He. revert Hc. generalize 0%nat. induction ch as [|e0 ch IH]; intros h Hc; [destruct He|].
+      destruct Hc as (Hr & Hl & _ & Hc). destruct He as [<-|He]; [rewrite Hr; exact Hl|exact (IH He _ Hc)]. }
+    unfold pf_ok, ecoord. cbn [fst snd]. set (h := StumpAdd.erow H e) in *.
+    rewrite Hlo. fold (p2 h). rewrite N.div_mul by (apply N.neq_0_lt_0, p2_pos).
+    rewrite (N.mul_comm 2 (num_leaves s / p2 (S h))), N.div_mul by lia.
+    replace (2 ^ (N.of_nat h + 1)) with (p2 (S h)) by (unfold p2; f_equal; lia).
+    pose proof (N.div_mod (num_leaves s) (p2 (S h)) (proj2 (N.neq_0_lt_0 _) (p2_pos _))) as Hdm.
+    rewrite Hones in Hdm. pose proof (p2_pos (S h)) as Hp. unfold num_leaves in *.
+    revert Hdm Hp. generalize (N.of_nat (length s) / p2 (S h)), (p2 (S h)). intros q P Hdm Hp.
+    cbn [length]. clear - Hdm Hp. nia.
+  - assert (Hb' : N.of_nat (length (s ++ [Some a]) + length adds) <= 2 ^ 63)
+      by (rewrite app_length; cbn [length]; lia).
+    pose proof (IH (s ++ [Some a]) Hb' d Hd) as Hp.
+    rewrite app_length in Hp. cbn [length] in *.
+    replace (length s + S (length adds))%nat with (length s + 1 + length adds)%nat by lia. exact Hp.
+Qed.
+
+(** a subtree occurs once in a forest with distinct live leaves *)
+Lemma walk_inj pi : forall Y Y', (length pi <= fst Y)%nat -> (length pi <= fst Y')%nat ->
+  walk Y pi = walk Y' pi -> Y = Y'.
+Proof.
+  intros Y Y' Hl Hl' E. destruct (walk_coord pi Y Hl) as [A1 A2].
+  destruct (walk_coord pi Y' Hl') as [B1 B2]. rewrite E in A1, A2.
+  destruct Y, Y'. cbn [fst snd] in *. f_equal; [lia|congruence].
+Qed.
+
+Lemma occp_some_leaf {H} (c : ctree H) : exists pi h, occp H c pi (CLeaf h).
+Proof.
+  induction c as [h|h l [pi [x IHl]] r _].
+  - exists [], h. constructor.
+  - exists (false :: pi), x. constructor. exact IHl.
+Qed.
+
+Lemma locc_once {H} (HO : ops H) (s : slots H) c r1 o1 r2 o2 : NoDup (live s) ->
+  locc H HO s c r1 o1 -> locc H HO s c r2 o2 -> (r1, o1) = (r2, o2).
+Proof.
+  intros Hnd L1 L2. destruct (occp_some_leaf c) as (pi & h & Hp).
+  pose proof (locc_height H HO s _ _ _ L1) as H1. pose proof (locc_height H HO s _ _ _ L2) as H2.
+  pose proof (occp_height H _ _ _ Hp) as Hh. cbn [cheight] in Hh.
+  assert (G : forall r o, locc H HO s c r o -> (length pi <= r)%nat ->
+            exists x, In x (layout HO s) /\ nleaf x = true /\ nhash x = h /\
+                      (nrow x, noff x) = walk (r, o) pi).
+  { intros r o (k & lo & cT & He & Ho) Hl.
+    pose proof (path_occ H c pi (CLeaf h) Hp (r, o) Hl) as Ho2. cbn [fst snd] in Ho2.
+    pose proof (occ_trans H _ _ _ _ _ _ _ _ _ Ho Ho2) as HoT.
+    destruct (locc_entry_node H HO s _ _ _ _ _ _ He HoT) as (x & _ & Hx & Xr & Xo & Xh & Xl & _).
+    exists x. split; [exact Hx|]. split; [exact Xl|]. split; [exact Xh|].
+    rewrite Xr, Xo. symmetry. apply surjective_pairing. }
+  destruct (G r1 o1 L1 ltac:(lia)) as (x1 & X1 & Xl1 & Xh1 & Xc1).
+  destruct (G r2 o2 L2 ltac:(lia)) as (x2 & X2 & Xl2 & Xh2 & Xc2).
+  assert (E : x1 = x2) by (apply (live_leaf_unique H HO s x1 x2 Hnd X1 X2 Xl1 Xl2); congruence).
+  subst x2. apply (walk_inj pi); cbn [fst]; [lia|lia|congruence].
+Qed.
+
+(** * [updateProofAdd] in general, on graphs of the valuation of the new state *)
+
+Lemma fold_left_pair {A B C} (f : C -> A -> A) (g : C -> B -> B) (l : list C) : forall a b,
+  fold_left (fun acc d => (f d (fst acc), g d (snd acc))) l (a, b)
+  = (fold_left (fun x d => f d x) l a, fold_left (fun x d => g d x) l b).
+Proof. induction l as [|d l IH]; intros a b; [reflexivity|]. cbn [fold_left fst snd]. apply IH. Qed.
+
+Section UpaGraph2.
+  Variable H : Type.
+  Variable HO : ops H.
+  Variable F : N -> H.
+  Local Notation gr := (gr H F).
+
+  Theorem pu_updateProofAdd_graph2 (n : N) (adds : list H) (rem : list N) (TC PC : list crd)
+          (hT hP : list H) (DD T2 P2 NN comp needed comp' : list N) :
+    let k := N.of_nat (length adds) in
+    let total := TreeRows n in
+    let total' := TreeRows (n + k) in
+    let NM := mergeSortedSlices NN P2 in
+    let RP := filter (fun p => mem_hash HO (F p) (pick adds rem)) NM in
+    let T3 := mergeSortedSlices RP T2 in
+    n + k <= 2 ^ 63 ->
+    (forall c, In c TC -> vld total c) -> (forall c, In c PC -> vld total c) ->
+    SSlt (map (g total) TC) -> SSlt (map (g total) PC) ->
+    length TC = length hT -> length PC = length hP ->
+    ProofPositions_fast (map (g total) TC) n total = (map (g total) PC, comp) ->
+    fold_left (fun acc del => getNewPositions HO [del] acc (n + k) true) DD
+              (zip_hp (map (g total') TC) hT) = gr T2 ->
+    fold_left (fun acc del => getNewPositions HO [del] acc (n + k) true) DD
+              (zip_hp (map (g total') PC) hP) = gr P2 ->
+    SSlt T2 -> SSlt P2 -> SSlt NN -> SSlt rem ->
+    ProofPositions_fast T3 (n + k) total' = (needed, comp') -> SSlt needed ->
+    (forall p, In p needed -> In p NM) ->
+    updateProofAdd HO (map (g total) TC) hP adds hT rem (gr NN) n DD
+    = Some (map F T3, T3, map F needed).
+  Proof.
+    intros k total total' NM RP T3 Hb HvT HvP HsT HsP ElT ElP Epp HmT HmP HsT2 HsP2 HsN Hsr Epp' Hsn Hsub.
+    destruct (mergeSortedSlices_spec NN P2 HsN HsP2) as [HsNM _]. fold NM in HsNM.
+    assert (HsRP : SSlt RP) by (apply po_filter_SS, HsNM).
+    unfold updateProofAdd.
+    rewrite (pu_toHP H (map (g total) TC) hT) by (try assumption; rewrite map_length; exact ElT).
+    unfold positions at 1.
+    rewrite (pu_zip_fst (map (g total) TC) hT) by (rewrite map_length; exact ElT).
+    fold total. rewrite Epp.
+    rewrite (pu_toHP H (map (g total) PC) hP) by (try assumption; rewrite map_length; exact ElP).
+    cbv zeta. fold k. rewrite (pu_add64_small n k Hb).
+    unfold total. rewrite !pu_maybeRemap_zip by assumption. fold total total'.
+    rewrite (fold_left_pair (fun del acc => getNewPositions HO [del] acc (n + k) true)
+                            (fun del acc => getNewPositions HO [del] acc (n + k) true)).
+    cbn [fst snd]. rewrite HmT, HmP.
+    rewrite (po_merge_gr H F NN P2 HsN HsP2). fold NM.
+    rewrite (remembered_pick _ 0 adds rem Hsr) by lia. fold (pick adds rem).
+    rewrite pu_hash_subset_gr. fold RP.
+    rewrite (po_merge_gr H F RP T2 HsRP HsT2). fold T3.
+    unfold positions. rewrite po_gr_fst. fold total'. rewrite Epp'.
+    rewrite (pu_upa_needed_gr H F needed NM Hsn HsNM).
+    rewrite (po_filter_all (fun p => memN p NM) needed)
+      by (intros p Hp; apply RefTheory.memN_In, Hsub, Hp).
+    rewrite pu_sortK_sorted_id by (rewrite po_gr_fst; exact Hsn).
+    unfold hashes. rewrite !po_gr_snd. reflexivity.
+  Qed.
+End UpaGraph2.
+
+
+(** * G1: addition-only blocks on any forest *)
+
+Section AddGen.
   Variable H : Type.
   Variable HO : ops H.
   Hypothesis HOK : ops_ok HO.
@@ -1187,12 +2018,12 @@ Section AddOnly.
   Variable adds : list H.
   Hypothesis Hlive_nz : forall h, In (Some h) s -> NZ HO h.
   Hypothesis Hb : N.of_nat (length s + length adds) <= 2 ^ 63.
-  Hypothesis Hne : no_empty_root H HO s.
 
   Local Notation s' := (s ++ map Some adds).
   Hypothesis Hnd' : NoDup (live s').
 
   Local Notation n := (N.of_nat (length s)).
+  Local Notation n' := (N.of_nat (length s')).
   Local Notation k := (N.of_nat (length adds)).
   Local Notation total := (TreeRows (N.of_nat (length s))).
   Local Notation total' := (TreeRows (N.of_nat (length s'))).
@@ -1202,55 +2033,135 @@ Section AddOnly.
   Local Notation lay' := (layout HO s').
   Local Notation F := (Fv H HO s).
   Local Notation F' := (Fv H HO s').
+  Local Notation D := (to_destroy_c H HO s adds).
 
-  Lemma ao_n63 : n <= 2 ^ 63. Proof. lia. Qed.
-  Lemma ao_len' : N.of_nat (length s') = n + k.
+  Lemma ag_n63 : n <= 2 ^ 63. Proof. lia. Qed.
+  Lemma ag_len' : n' = n + k.
   Proof. rewrite app_length, map_length. lia. Qed.
-  Lemma ao_n63' : N.of_nat (length s') <= 2 ^ 63. Proof. rewrite ao_len'. lia. Qed.
+  Lemma ag_n63' : n' <= 2 ^ 63. Proof. rewrite ag_len'. lia. Qed.
+  Lemma ag_R63 : (R' <= 63)%nat. Proof. apply rows_of_le_63. exact ag_n63'. Qed.
+  Lemma ag_ER : N.of_nat R' = total'. Proof. apply rf_R_total. Qed.
 
-  Lemma ao_live' : live s' = live s ++ adds.
+  Lemma ag_live' : live s' = live s ++ adds.
   Proof. rewrite live_app, live_map_some. reflexivity. Qed.
-  Lemma ao_nd : NoDup (live s).
-  Proof. pose proof Hnd' as Hx. rewrite ao_live' in Hx. exact (proj1 (NoDup_app_inv _ _ _ Hx)). Qed.
-  Lemma ao_adds_nd : NoDup adds.
-  Proof. pose proof Hnd' as Hx. rewrite ao_live' in Hx. exact (proj1 (proj2 (NoDup_app_inv _ _ _ Hx))). Qed.
-  Lemma ao_fresh a : In a adds -> ~ In (Some a) s.
+  Lemma ag_nd : NoDup (live s).
+  Proof. pose proof Hnd' as Hx. rewrite ag_live' in Hx. exact (proj1 (NoDup_app_inv _ _ _ Hx)). Qed.
+  Lemma ag_adds_nd : NoDup adds.
+  Proof. pose proof Hnd' as Hx. rewrite ag_live' in Hx. exact (proj1 (proj2 (NoDup_app_inv _ _ _ Hx))). Qed.
+  Lemma ag_fresh a : In a adds -> ~ In (Some a) s.
   Proof.
-    intros Ha Hs. pose proof Hnd' as Hx. rewrite ao_live' in Hx.
+    intros Ha Hs. pose proof Hnd' as Hx. rewrite ag_live' in Hx.
     apply (proj2 (proj2 (NoDup_app_inv _ _ _ Hx)) a); [apply live_in; exact Hs|exact Ha].
   Qed.
-  Lemma ao_in' h : In (Some h) s' <-> In (Some h) s \/ In h adds.
+  Lemma ag_in' h : In (Some h) s' <-> In (Some h) s \/ In h adds.
   Proof.
     rewrite in_app_iff, in_map_iff. split; intros [A|B]; auto.
     - destruct B as (x & E & Hx). injection E as ->. auto.
     - right. exists h. auto.
   Qed.
 
-  Lemma ao_up c0 r0 o0 : locc H HO s c0 r0 o0 -> locc H HO s' c0 r0 o0.
-  Proof. exact (proj1 (locc_adds H HO adds s Hb Hne) c0 r0 o0). Qed.
-  Lemma ao_down c0 r0 o0 : locc H HO s' c0 r0 o0 ->
-    (exists a, In a adds /\ In a (cleaves H c0)) \/ locc H HO s c0 r0 o0.
-  Proof. exact (proj1 (proj2 (locc_adds H HO adds s Hb Hne)) c0 r0 o0). Qed.
+  Lemma ag_up c0 r0 o0 : locc H HO s c0 r0 o0 ->
+    locc H HO s' c0 (fst (liftc D (r0, o0))) (snd (liftc D (r0, o0))).
+  Proof. exact (proj1 (lift_adds HO adds s Hb) c0 r0 o0). Qed.
+  Lemma ag_down c0 r1 o1 : locc H HO s' c0 r1 o1 ->
+    (exists a, In a adds /\ In a (cleaves H c0)) \/
+    exists r0 o0, locc H HO s c0 r0 o0 /\ liftc D (r0, o0) = (r1, o1).
+  Proof. exact (proj2 (lift_adds HO adds s Hb) c0 r1 o1). Qed.
 
-  Lemma ao_pos' (c : nat * N) : pos R' (fst c) (snd c) = g total' (cN c).
-  Proof. exact (po_pos_g H s' c). Qed.
-
-  Lemma ao_val c0 r0 o0 : locc H HO s c0 r0 o0 ->
-    F (g total (cN (r0, o0))) = chash c0 /\ F' (g total' (cN (r0, o0))) = chash c0.
+  Lemma ag_dok d : In d D -> dok R' n' d.
   Proof.
-    intros Hl. rewrite <- (rf_pos_g H s r0 o0), <- (rf_pos_g H s' r0 o0).
-    split; [exact (locc_val H HO s c0 r0 o0 Hl)|exact (locc_val H HO s' c0 r0 o0 (ao_up _ _ _ Hl))].
+    intros Hd. pose proof ag_R63 as HR.
+    assert (Hbb : N.of_nat (length s + length adds) <= 2 ^ N.of_nat R').
+    { pose proof (rows_of_upper (num_leaves s')) as Hu. unfold num_leaves in Hu at 1.
+      rewrite app_length, map_length in Hu. exact Hu. }
+    destruct (to_destroy_struct H HO hash_nz R' HR adds s Hbb) as [_ Hm].
+    destruct (Hm d Hd) as [(e & He & _ & ->) Hlt]. split; [exact Hlt|]. split.
+    - apply (ecoord_valid H HO R' s e); [|exact He].
+      eapply N.le_trans; [|exact Hbb]. lia.
+    - pose proof (pf_ok_all HO adds s Hb _ Hd) as Hp.
+      replace n' with (N.of_nat (length s + length adds)) by (rewrite app_length, map_length; reflexivity).
+      exact Hp.
   Qed.
 
-  (** a leaf node of the old layout and the node at its place in the new layout *)
-  Lemma ao_leaf_up x : In x lay -> nleaf x = true ->
-    exists y, In y lay' /\ nleaf y = true /\ nhash y = nhash x /\ ncrd y = ncrd x.
+  Lemma ag_cpos (x : coord) : cpos R' x = pos R' (fst x) (snd x).
+  Proof. reflexivity. Qed.
+
+  (** the coordinate of an old occurrence is valid and in the new forest *)
+  Lemma ag_cok c0 r0 o0 : locc H HO s c0 r0 o0 ->
+    cvalid R' (r0, o0) /\ cinf n' (r0, o0) /\ NZ HO (chash c0).
   Proof.
-    intros Hx Hl. destruct (node_locc H HO s x Hx Hl) as (k0 & lo & c & He & Ho & _).
-    assert (Hlo : locc H HO s (CLeaf (nhash x)) (nrow x) (noff x)) by (exists k0, lo, c; auto).
-    destruct (locc_node H HO s' _ _ _ (ao_up _ _ _ Hlo)) as (y & Hy & Yr & Yo & Yh & Yl).
-    exists y. split; [exact Hy|]. split; [exact Yl|]. split; [exact Yh|].
-    unfold ncrd. rewrite Yr, Yo. reflexivity.
+    intros Hl. destruct (locc_node H HO s c0 r0 o0 Hl) as (x & Hx & Xr & Xo & _).
+    pose proof (layout_coords_valid H HO s x Hx) as Hv. rewrite Xr, Xo in Hv.
+    assert (Hcinf : cinf n' (r0, o0)).
+    { unfold cinf. cbn [fst snd]. rewrite ag_len'. lia. }
+    split; [|split; [exact Hcinf|exact (locc_nz H HO s c0 r0 o0 hash_nz Hlive_nz Hl)]].
+    pose proof (pps_in_forest_valid n' total' (N.of_nat r0) o0 (TreeRows_upper n')) as Hpv.
+    unfold in_forest in Hpv. specialize (Hpv (proj2 (N.leb_le _ _) Hcinf)).
+    unfold cvalid. cbn [fst snd]. rewrite ag_ER. destruct Hpv as [P1 P2]. split; [|exact P2].
+    rewrite <- ag_ER in P1. lia.
+  Qed.
+
+  (** the lists of [updateProofAdd] after the empty roots are written over *)
+  Lemma ag_moved (X : list (coord * H)) :
+    (forall e, In e X -> exists c0, locc H HO s c0 (fst (fst e)) (snd (fst e)) /\ snd e = chash c0) ->
+    NoDup (map fst X) -> SSle (map (fun e => cpos R' (fst e)) X) ->
+    exists T2,
+      fold_left (fun acc del => getNewPositions HO [del] acc n' true) (map (cpos R') D)
+                (map (cposh H R') X) = gr H F' T2 /\
+      SSlt T2 /\
+      (forall p, In p T2 <-> exists e, In e X /\ p = cpos R' (liftc D (fst e))).
+  Proof.
+    intros HX Hnd Hs.
+    assert (Hok : forall e, In e X -> cok H HO R' n' e).
+    { intros e He. destruct (HX e He) as (c0 & Hl & Eh). destruct e as [[r0 o0] h]. cbn [fst snd] in *.
+      destruct (ag_cok c0 r0 o0 Hl) as (A & B & C). unfold cok. cbn [fst snd]. rewrite Eh. auto. }
+    destruct (pu_moved H HO R' n' ag_R63 ag_n63' ag_ER D (map (cposh H R') X) X
+                (fun d Hd => ag_dok d Hd) Hok (Permutation_refl _)) as [Pm Sm].
+    { rewrite map_map. exact Hs. }
+    cbv zeta in Pm, Sm.
+    set (res := fold_left (fun acc del => getNewPositions HO [del] acc n' true) (map (cpos R') D)
+                          (map (cposh H R') X)) in *.
+    set (M := map (fun e : coord * H => cposh H R' (liftc D (fst e), snd e)) X) in *.
+    (* the lifted list is a graph of the new valuation with distinct keys *)
+    assert (HM : forall e, In e X -> exists c0, locc H HO s c0 (fst (fst e)) (snd (fst e)) /\
+                   locc H HO s' c0 (fst (liftc D (fst e))) (snd (liftc D (fst e))) /\
+                   snd e = chash c0).
+    { intros e He. destruct (HX e He) as (c0 & Hl & Eh). exists c0. split; [exact Hl|]. split; [|exact Eh].
+      pose proof (ag_up c0 _ _ Hl) as Hu. rewrite <- surjective_pairing in Hu. exact Hu. }
+    assert (GM : graph H F' M).
+    { intros e He. unfold M in He. apply in_map_iff in He as (e0 & <- & He0).
+      destruct (HM e0 He0) as (c0 & _ & Hl' & Eh). unfold cposh. cbn [fst snd].
+      rewrite Eh. symmetry. exact (locc_val H HO s' c0 _ _ Hl'). }
+    assert (NM : NoDup (map fst M)).
+    { unfold M. rewrite map_map. cbn [cposh fst].
+      apply (RefTheory.NoDup_map_inj_on (fun e : coord * H => cpos R' (liftc D (fst e)))).
+      - exact (NoDup_map_inv _ _ Hnd).
+      - intros e1 e2 He1 He2 Ep.
+        destruct (HM e1 He1) as (c1 & L1 & L1' & Eh1). destruct (HM e2 He2) as (c2 & L2 & L2' & Eh2).
+        assert (Ey : liftc D (fst e1) = liftc D (fst e2)).
+        { destruct (locc_node H HO s' c1 _ _ L1') as (y1 & Y1 & Yr1 & Yo1 & _).
+          destruct (locc_node H HO s' c2 _ _ L2') as (y2 & Y2 & Yr2 & Yo2 & _).
+          assert (Ey12 : y1 = y2).
+          { apply (RefTheory.layout_npos_inj H HO s' y1 y2 Y1 Y2). unfold npos.
+            rewrite Yr1, Yo1, Yr2, Yo2. exact Ep. }
+          subst y2. rewrite (surjective_pairing (liftc D (fst e1))), (surjective_pairing (liftc D (fst e2))).
+          congruence. }
+        rewrite Ey in L1'. pose proof (locc_uniq H HO s' _ _ _ _ L1' L2') as Ec. subst c2.
+        pose proof (locc_once HO s c1 _ _ _ _ ag_nd L1 L2) as Ex.
+        rewrite <- !surjective_pairing in Ex.
+        destruct e1 as [x1 h1], e2 as [x2 h2]. cbn [fst snd] in *. congruence. }
+    assert (Gres : graph H F' res).
+    { intros e He. apply GM. exact (Permutation_in _ Pm He). }
+    assert (Nres : NoDup (map fst res)).
+    { eapply Permutation_NoDup; [|exact NM]. apply Permutation_map, Permutation_sym, Pm. }
+    exists (map fst res). split; [exact (po_graph_eq H F' res Gres)|].
+    split; [apply pps_SSle_NoDup_SSlt; assumption|].
+    intros p. split.
+    - intros Hp. apply in_map_iff in Hp as (e & <- & He). apply (Permutation_in _ Pm) in He.
+      unfold M in He. apply in_map_iff in He as (e0 & <- & He0). exists e0. split; [exact He0|reflexivity].
+    - intros (e0 & He0 & ->). apply in_map_iff. exists (cposh H R' (liftc D (fst e0), snd e0)).
+      split; [reflexivity|]. apply (Permutation_in _ (Permutation_sym Pm)).
+      unfold M. apply in_map_iff. exists e0. auto.
   Qed.
 
   Variable C : list H.
@@ -1265,14 +2176,14 @@ Section AddOnly.
 
   (** the two halves of [Proof.Update]: without deletions the remove part changes nothing; the
       add part computes the expected cached proof of the new state *)
-  Lemma ao_both :
+  Lemma ag_both :
     updateProofRemove HO tC pC [] hC [] (num_leaves s) = Some (hC, tC, pC) /\
     (updateProofAdd HO tC pC adds hC rem (new_add HO s' adds) (num_leaves s)
                     (to_destroy HO R' s adds)
      = exp_cached HO (mk_ctx HO s') (C ++ pick adds rem) /\
      exp_cached HO (mk_ctx HO s') (C ++ pick adds rem) <> None).
   Proof.
-    pose proof ao_n63 as Hn63. pose proof ao_n63' as Hn63'. pose proof ao_nd as Hnd.
+    pose proof ag_n63 as Hn63. pose proof ag_n63' as Hn63'. pose proof ag_nd as Hnd.
     pose proof (pu_nle n) as Hnle. pose proof (pu_t63 n Hn63) as Ht63.
     (* the cached set before the block *)
     unfold exp_cached in E. cbn [mk_ctx clay crows] in E.
@@ -1339,7 +2250,7 @@ Section AddOnly.
       - apply (Hgen rr (2 * o + 1)); [right; auto|exact Eg].
       - apply (Hgen l (2 * o)); [left; auto|exact Eg]. }
     (* step 1: no deletions *)
-    rewrite (to_destroy_nil H HO _ adds s Hb Hne).
+    rewrite (to_destroy_coords H HO R' adds s).
     rewrite (po_canon_hashes_Fv H HO s Hn63 sorted LS).
     split.
     { apply (pu_updateProofRemove_nodel H HO _ _ _ n (canon_proof_pos R lay sorted) (computable_pos R lay sorted) Hn63); try assumption.
@@ -1355,15 +2266,15 @@ Section AddOnly.
         exists (cN (r0, o0)). split; [rewrite <- Ey; exact (rf_node_inf H HO s y Hy)|].
         split; [reflexivity|]. split.
         + right. rewrite <- Ey. exact (rf_root_true H HO s y Hy Ynr).
-        + rewrite (proj1 (ao_val c0 r0 o0 Hl)). exact (locc_nz H HO s c0 r0 o0 hash_nz Hlive_nz Hl). }
+        + rewrite <- (rf_pos_g H s r0 o0), (locc_val H HO s c0 r0 o0 Hl). exact (locc_nz H HO s c0 r0 o0 hash_nz Hlive_nz Hl). }
     (* the cached set after the block *)
     set (C' := C ++ pick adds rem).
     assert (Hpick_adds : forall a, In a (pick adds rem) -> In a adds) by (intros a; apply pick_In).
     assert (HC' : NoDup C').
-    { apply NoDup_app_intro; [exact HC|apply pick_from_NoDup, ao_adds_nd|].
-      intros h Hh Hp. exact (ao_fresh h (Hpick_adds h Hp) (HCs h Hh)). }
+    { apply NoDup_app_intro; [exact HC|apply pick_from_NoDup, ag_adds_nd|].
+      intros h Hh Hp. exact (ag_fresh h (Hpick_adds h Hp) (HCs h Hh)). }
     assert (HC's : forall h, In h C' -> In (Some h) s').
-    { intros h Hh. apply ao_in'. apply in_app_or in Hh as [Hh|Hh]; [left; exact (HCs h Hh)|right; exact (Hpick_adds h Hh)]. }
+    { intros h Hh. apply ag_in'. apply in_app_or in Hh as [Hh|Hh]; [left; exact (HCs h Hh)|right; exact (Hpick_adds h Hh)]. }
     destruct (po_find_leaves_some H HO s' C') as [tsU FU].
     { intros h Hh. destruct (proj1 (find_leaf_live H HO s' h HOK) (HC's h Hh)) as (x & Ex & _).
       exists x. exact Ex. }
@@ -1386,50 +2297,87 @@ Section AddOnly.
       apply pps_sortN_NoDup_SSlt, (po_targets_NoDup H HO s' tsU LU NtU). }
     unfold exp_cached. cbn [mk_ctx clay crows]. fold C'. rewrite FU. fold sortedU.
     split; [|discriminate].
-    (* the inputs as graphs of the valuation of the new state *)
-    assert (Elen : N.of_nat (length s') = n + k) by exact ao_len'.
-    set (T1 := map (g total') TC). set (P1 := map (g total') PC).
-    set (NN := map fst (new_add HO s' adds)).
-    assert (EhT : map (@nhash H) sorted = map F' T1).
-    { unfold T1, TC. rewrite !map_map. apply map_ext_in. intros x Hx.
+    (* the lifted coordinates of the old targets and proof positions *)
+    assert (Elen : n' = n + k) by exact ag_len'.
+    pose proof ag_ER as ER. pose proof ag_R63 as HR63.
+    assert (Hmono : total <= total') by (apply pu_TreeRows_mono; rewrite Elen; lia).
+    assert (H63' : total' <= 63) by (apply TreeRows_le_63, Hn63').
+    set (PCc := map (fun e : N * (nat * N) => snd e) SC).
+    assert (EPCc : PC = map cN PCc) by (unfold PC, PCc; rewrite map_map; reflexivity).
+    set (XT := map (fun x : node H => ((nrow x, noff x), nhash x)) sorted).
+    set (XP := map (fun c : nat * N => (c, F (g total (cN c)))) PCc).
+    assert (HXT : forall e, In e XT -> exists c0, locc H HO s c0 (fst (fst e)) (snd (fst e)) /\ snd e = chash c0).
+    { intros e He. unfold XT in He. apply in_map_iff in He as (x & <- & Hx). cbn [fst snd].
       destruct (node_locc H HO s x (LS x Hx) (FlS x Hx)) as (k0 & lo & c & He & Ho & _).
-      symmetry. apply (proj2 (ao_val (CLeaf (nhash x)) (nrow x) (noff x) ltac:(exists k0, lo, c; auto))). }
-    assert (EhP : map F (canon_proof_pos R lay sorted) = map F' P1).
-    { rewrite EPC. unfold P1. rewrite !map_map. apply map_ext_in. intros c Hc.
-      destruct (HPocc c Hc) as (c0 & r0 & o0 & -> & Hl & _).
-      destruct (ao_val c0 r0 o0 Hl) as [V1 V2]. rewrite V1, V2. reflexivity. }
+      exists (CLeaf (nhash x)). split; [exists k0, lo, c; auto|reflexivity]. }
+    assert (HPc : forall c, In c PCc -> In (cN c) PC) by (intros c Hc; rewrite EPCc; apply in_map, Hc).
+    assert (HXP : forall e, In e XP -> exists c0, locc H HO s c0 (fst (fst e)) (snd (fst e)) /\ snd e = chash c0).
+    { intros e He. unfold XP in He. apply in_map_iff in He as (c & <- & Hc). cbn [fst snd].
+      destruct (HPocc (cN c) (HPc c Hc)) as (c0 & r0 & o0 & Ec & Hl & _). apply cN_inj in Ec. subst c.
+      exists c0. cbn [fst snd]. split; [exact Hl|].
+      rewrite <- (rf_pos_g H s r0 o0). exact (locc_val H HO s c0 r0 o0 Hl). }
+    assert (Ecpos : forall c : nat * N, cpos R' c = g total' (cN c)).
+    { intros c. rewrite cpos_gpos, ER. reflexivity. }
+    assert (EzT : zip_hp (map (g total') TC) (map (@nhash H) sorted) = map (cposh H R') XT).
+    { unfold TC, XT. rewrite !map_map, pu_zip_map. apply map_ext. intros x.
+      unfold cposh. cbn [fst snd]. rewrite Ecpos. reflexivity. }
+    assert (EzP : zip_hp (map (g total') PC) (map F (canon_proof_pos R lay sorted)) = map (cposh H R') XP).
+    { rewrite EPC, EPCc. unfold XP. rewrite !map_map, pu_zip_map. apply map_ext. intros c.
+      unfold cposh. cbn [fst snd]. rewrite Ecpos. reflexivity. }
+    assert (HsT1 : SSlt (map (g total') TC)).
+    { apply (pu_SSlt_transfer total total' TC Hmono H63' HvT). rewrite <- ETC. exact HsT. }
+    assert (HsP1 : SSlt (map (g total') PC)).
+    { apply (pu_SSlt_transfer total total' PC Hmono H63' HvP). rewrite <- EPC. exact HsP. }
+    assert (NdT : NoDup (map fst XT)).
+    { unfold XT. rewrite map_map. cbn [fst].
+      assert (Hn1 : NoDup (map (g total') TC)) by (apply pps_SSlt_NoDup; exact HsT1).
+      unfold TC in Hn1. rewrite map_map in Hn1.
+      apply (RefTheory.NoDup_map_inj_on (fun x : node H => (nrow x, noff x))); [exact NtS|].
+      intros x y Hx Hy Exy. apply (RefTheory.layout_coord_inj H HO s x y (LS x Hx) (LS y Hy)). exact Exy. }
+    assert (NdP : NoDup (map fst XP)).
+    { unfold XP. rewrite map_map. cbn [fst]. rewrite map_id.
+      assert (Hn1 : NoDup (map (g total') PC)) by (apply pps_SSlt_NoDup; exact HsP1).
+      rewrite EPCc, map_map in Hn1. exact (NoDup_map_inv _ _ Hn1). }
+    destruct (ag_moved XT HXT NdT) as (T2 & HmT & HsT2 & MT2).
+    { apply po_SSlt_SSle. unfold XT. rewrite map_map. cbn [fst].
+      unfold TC in HsT1. rewrite map_map in HsT1.
+      erewrite map_ext; [exact HsT1|]. intros x. apply Ecpos. }
+    destruct (ag_moved XP HXP NdP) as (P2 & HmP & HsP2 & MP2).
+    { apply po_SSlt_SSle. unfold XP. rewrite map_map. cbn [fst].
+      rewrite EPCc, map_map in HsP1. erewrite map_ext; [exact HsP1|]. intros c. apply Ecpos. }
+    rewrite <- EzT in HmT. rewrite <- EzP in HmP.
+    (* the new nodes *)
+    set (NN := map fst (new_add HO s' adds)).
     assert (ENN : new_add HO s' adds = gr H F' NN).
     { apply po_graph_eq. intros e He. destruct (new_add_node H HO adds s' e He) as (z & Hz & ->).
       cbn [fst snd]. symmetry. exact (po_Fv_node H HO s' z Hz). }
     pose proof (new_add_SSlt H HO adds s') as HsNN. fold NN in HsNN.
-    assert (Hmono : total <= total').
-    { apply pu_TreeRows_mono. rewrite Elen. lia. }
-    assert (H63' : total' <= 63) by (apply TreeRows_le_63, Hn63').
-    assert (HsT1 : SSlt T1).
-    { apply (pu_SSlt_transfer total total' TC Hmono H63' HvT). rewrite <- ETC. exact HsT. }
-    assert (HsP1 : SSlt P1).
-    { apply (pu_SSlt_transfer total total' PC Hmono H63' HvP). rewrite <- EPC. exact HsP. }
-    destruct (mergeSortedSlices_spec NN P1 HsNN HsP1) as [HsNM MNM].
-    set (NM := mergeSortedSlices NN P1) in *.
+    destruct (mergeSortedSlices_spec NN P2 HsNN HsP2) as [HsNM MNM].
+    set (NM := mergeSortedSlices NN P2) in *.
     set (RP := filter (fun p => mem_hash HO (F' p) (pick adds rem)) NM).
     assert (HsRP : SSlt RP) by (apply po_filter_SS, HsNM).
-    destruct (mergeSortedSlices_spec RP T1 HsRP HsT1) as [HsT3 MT3].
-    set (T3 := mergeSortedSlices RP T1) in *.
+    destruct (mergeSortedSlices_spec RP T2 HsRP HsT2) as [HsT3 MT3].
+    set (T3 := mergeSortedSlices RP T2) in *.
     assert (Hmem : forall h l, mem_hash HO h l = true <-> In h l).
     { intros h l. unfold mem_hash. rewrite existsb_exists. split.
       - intros (x & Hx & Ex). apply HOK in Ex. subst x. exact Hx.
       - intros Hh. exists h. split; [exact Hh|apply HOK; reflexivity]. }
-    (* every position of the merged node list is a node of the new layout *)
+    (* an old occurrence in the new layout *)
+    assert (Hnode' : forall c0 r0 o0, locc H HO s c0 r0 o0 ->
+              exists z, In z lay' /\ cpos R' (liftc D (r0, o0)) = npos R' z /\ nhash z = chash c0 /\
+                        nleaf z = cleafb H c0 /\ (nrow z, noff z) = liftc D (r0, o0)).
+    { intros c0 r0 o0 Hl.
+      destruct (locc_node H HO s' c0 _ _ (ag_up c0 r0 o0 Hl)) as (z & Hz & Zr & Zo & Zh & Zl).
+      exists z. split; [exact Hz|]. split; [unfold npos, cpos; rewrite Zr, Zo; reflexivity|].
+      split; [exact Zh|]. split; [exact Zl|]. rewrite Zr, Zo. symmetry. apply surjective_pairing. }
     assert (HNMnode : forall p, In p NM -> exists z, In z lay' /\ p = npos R' z /\ F' p = nhash z).
     { intros p Hp. apply MNM in Hp as [Hp|Hp].
       - unfold NN in Hp. apply in_map_iff in Hp as (e & <- & He).
         destruct (new_add_node H HO adds s' e He) as (z & Hz & ->). cbn [fst].
         exists z. split; [exact Hz|]. split; [reflexivity|exact (po_Fv_node H HO s' z Hz)].
-      - unfold P1 in Hp. apply in_map_iff in Hp as (c & <- & Hc).
-        destruct (HPocc c Hc) as (c0 & r0 & o0 & -> & Hl & _).
-        destruct (locc_node H HO s' c0 r0 o0 (ao_up _ _ _ Hl)) as (z & Hz & Zr & Zo & Zh & _).
-        assert (Ez : g total' (cN (r0, o0)) = npos R' z).
-        { rewrite (rf_npos H s' z). unfold ncrd. rewrite Zr, Zo. reflexivity. }
+      - apply MP2 in Hp as (e & He & ->). destruct (HXP e He) as (c0 & Hl & _).
+        destruct e as [[r0 o0] h0]. cbn [fst snd] in *.
+        destruct (Hnode' c0 _ _ Hl) as (z & Hz & Ez & _).
         exists z. split; [exact Hz|]. split; [exact Ez|]. rewrite Ez. exact (po_Fv_node H HO s' z Hz). }
     (* the targets after the block *)
     assert (ET3 : T3 = map (npos R') sortedU).
@@ -1439,20 +2387,24 @@ Section AddOnly.
           destruct (HNMnode p Hp) as (z & Hz & -> & Ez). rewrite Ez in Hm.
           apply in_map. apply HinU; [exact Hz| |apply in_or_app; right; exact Hm].
           destruct (nleaf z) eqn:Hl; [reflexivity|]. exfalso. exact (Hcol z Hz Hl Hm).
-        + unfold T1, TC in Hp. rewrite map_map in Hp. apply in_map_iff in Hp as (x & <- & Hx).
-          destruct (ao_leaf_up x (LS x Hx) (FlS x Hx)) as (y & Hy & Yl & Yh & Yc).
-          rewrite <- Yc, <- (rf_npos H s' y). apply in_map. apply HinU; [exact Hy|exact Yl|].
-          rewrite Yh. apply in_or_app. left. apply HhS. apply in_map, Hx.
+        + apply MT2 in Hp as (e & He & ->). unfold XT in He. apply in_map_iff in He as (x & <- & Hx).
+          cbn [fst].
+          destruct (node_locc H HO s x (LS x Hx) (FlS x Hx)) as (k0 & lo & c & He & Ho & _).
+          destruct (Hnode' (CLeaf (nhash x)) (nrow x) (noff x) ltac:(exists k0, lo, c; auto)) as (z & Hz & Ez & Zh & Zl & _).
+          rewrite Ez. apply in_map. cbn [chash cleafb] in Zh, Zl. apply HinU; [exact Hz|exact Zl|].
+          rewrite Zh. apply in_or_app. left. apply HhS. apply in_map, Hx.
       - intros Hp. apply in_map_iff in Hp as (y & <- & Hy).
         pose proof (LSU y Hy) as Hyl. pose proof (FlSU y Hy) as Yl.
         assert (Hh : In (nhash y) C') by (apply HhU; apply in_map, Hy).
         apply in_app_or in Hh as [Hh|Hh].
         + right. apply HhS in Hh. apply in_map_iff in Hh as (x & Ex & Hx).
-          destruct (ao_leaf_up x (LS x Hx) (FlS x Hx)) as (y' & Hy' & Yl' & Yh' & Yc').
-          assert (Eyy : y' = y).
-          { apply (live_leaf_unique H HO s' y' y Hnd' Hy' Hyl Yl' Yl). congruence. }
-          subst y'. unfold T1, TC. rewrite map_map. apply in_map_iff. exists x.
-          split; [|exact Hx]. rewrite <- Yc'. symmetry. apply rf_npos.
+          destruct (node_locc H HO s x (LS x Hx) (FlS x Hx)) as (k0 & lo & c & He & Ho & _).
+          destruct (Hnode' (CLeaf (nhash x)) (nrow x) (noff x) ltac:(exists k0, lo, c; auto)) as (z & Hz & Ez & Zh & Zl & _).
+          cbn [chash cleafb] in Zh, Zl.
+          assert (Eyy : z = y).
+          { apply (live_leaf_unique H HO s' z y Hnd' Hz Hyl Zl Yl). congruence. }
+          subst z. apply MT2. exists ((nrow x, noff x), nhash x).
+          split; [unfold XT; apply in_map_iff; exists x; auto|]. cbn [fst]. symmetry. exact Ez.
         + left. apply filter_In.
           destruct (node_locc H HO s' y Hyl Yl) as (k0 & lo & c & He & Ho & _).
           assert (Hna : In (pos R' (nrow y) (noff y), nhash y) (new_add HO s' adds)).
@@ -1464,7 +2416,7 @@ Section AddOnly.
           * apply Hmem. rewrite (po_Fv_node H HO s' y Hyl). exact Hh. }
     (* the proof positions after the block *)
     set (needed := canon_proof_pos R' lay' sortedU).
-    assert (Epp' : ProofPositions_fast T3 (N.of_nat (length s')) total'
+    assert (Epp' : ProofPositions_fast T3 n' total'
                    = (needed, computable_pos R' lay' sortedU)).
     { rewrite ET3. rewrite <- (po_sortN_sorted_id _ HsTU) at 1.
       exact (po_pp_both_fast H HO s' Hn63' sortedU LSU FlSU NtSU). }
@@ -1472,7 +2424,7 @@ Section AddOnly.
     assert (Hfresh_leaf : forall c0 r0 o0 h, locc H HO s c0 r0 o0 -> In h (cleaves H c0) ->
                                         In h C' -> In h C).
     { intros c0 r0 o0 h Hl Hh Hc. apply in_app_or in Hc as [Hc|Hc]; [exact Hc|exfalso].
-      exact (ao_fresh h (Hpick_adds h Hc) (locc_leaf_live H HO s c0 r0 o0 h Hl Hh)). }
+      exact (ag_fresh h (Hpick_adds h Hc) (locc_leaf_live H HO s c0 r0 o0 h Hl Hh)). }
     assert (Hsub : forall p, In p needed -> In p NM).
     { intros p Hp.
       apply (canon_pos_occ H HO s' Hn63' Hnd' sortedU LSU FlSU) in Hp
@@ -1483,19 +2435,28 @@ Section AddOnly.
         destruct Hcase as [(_ & _ & ->)|(_ & _ & ->)].
         + apply in_map_iff. exists (pos R' r (2 * o + 1), chash rr). split; [reflexivity|exact N2].
         + apply in_map_iff. exists (pos R' r (2 * o), chash l). split; [reflexivity|exact N1].
-      - assert (Hold : locc H HO s (CNode h l rr) (S r) o).
-        { destruct (ao_down _ _ _ Hlp) as [(a & Ha & Hac)|Hl]; [|exact Hl]. exfalso.
-          assert (Ht : has_leaf_in HO adds (CNode h l rr) = true)
-            by (apply (has_leaf_in_iff H HO HOK); exists a; auto).
-          congruence. }
-        destruct (locc_child H HO s _ _ _ Hold h l rr eq_refl) as (r1 & Er & Ll & Lr).
-        injection Er as <-.
-        assert (Hhit : forall c0 o0, locc H HO s c0 r o0 ->
+      - destruct (ag_down _ _ _ Hlp) as [(a & Ha & Hac)|(r0 & o0 & Hold & Elift)].
+        { exfalso. assert (Ht : has_leaf_in HO adds (CNode h l rr) = true)
+            by (apply (has_leaf_in_iff H HO HOK); exists a; auto). congruence. }
+        destruct (locc_child H HO s _ _ _ Hold h l rr eq_refl) as (r1 & Er & Ll & Lr). subst r0.
+        destruct (locc_child H HO s' _ _ _ Hlp h l rr eq_refl) as (r1' & Er' & Ll' & Lr').
+        injection Er' as <-.
+        (* the children keep their places below the lifted parent *)
+        assert (Echild : liftc D (r1, 2 * o0) = (r, 2 * o) /\ liftc D (r1, 2 * o0 + 1) = (r, 2 * o + 1)).
+        { split.
+          - pose proof (ag_up l _ _ Ll) as Hu.
+            rewrite (surjective_pairing (liftc D (r1, 2 * o0))).
+            exact (locc_once HO s' l _ _ _ _ Hnd' Hu Ll').
+          - pose proof (ag_up rr _ _ Lr) as Hu.
+            rewrite (surjective_pairing (liftc D (r1, 2 * o0 + 1))).
+            exact (locc_once HO s' rr _ _ _ _ Hnd' Hu Lr'). }
+        destruct Echild as [El Err].
+        assert (Hhit : forall c0 o1, locc H HO s c0 r1 o1 ->
                   (hit H sortedU c0 <-> hit H sorted c0)).
-        { intros c0 o0 Hl0. split.
+        { intros c0 o1 Hl0. split.
           - intros (y & Hy & Hyc).
             assert (Hc : In (nhash y) C).
-            { apply (Hfresh_leaf c0 r o0 (nhash y) Hl0 Hyc). apply HhU. apply in_map, Hy. }
+            { apply (Hfresh_leaf c0 r1 o1 (nhash y) Hl0 Hyc). apply HhU. apply in_map, Hy. }
             apply HhS in Hc. apply in_map_iff in Hc as (x & Ex & Hx).
             exists x. split; [exact Hx|]. rewrite Ex. exact Hyc.
           - intros (x & Hx & Hxc).
@@ -1503,33 +2464,42 @@ Section AddOnly.
             apply HhU in Hc. apply in_map_iff in Hc as (y & Ey & Hy).
             exists y. split; [exact Hy|]. rewrite Ey. exact Hxc. }
         apply MNM. right.
-        assert (Hgen : forall c0 o0, locc H HO s c0 r o0 ->
-                         In (pos R r o0) (canon_proof_pos R lay sorted) -> In (pos R' r o0) P1).
-        { intros c0 o0 Hl0 Hpo. rewrite EPC in Hpo. apply in_map_iff in Hpo as (c & Ec & Hc).
-          assert (Ecc : c = cN (r, o0)).
+        assert (Hgen : forall c0 o1, locc H HO s c0 r1 o1 ->
+                         In (pos R r1 o1) (canon_proof_pos R lay sorted) ->
+                         In (cpos R' (liftc D (r1, o1))) P2).
+        { intros c0 o1 Hl0 Hpo. rewrite EPC in Hpo. apply in_map_iff in Hpo as (c & Ec & Hc).
+          assert (Ecc : c = cN (r1, o1)).
           { apply (pps_g_inj total); [exact (HvP c Hc)| |rewrite Ec; apply rf_pos_g].
-            destruct (locc_node H HO s c0 r o0 Hl0) as (z & Hz & Zr & Zo & _).
-            replace (cN (r, o0)) with (ncrd z) by (unfold ncrd; rewrite Zr, Zo; reflexivity).
+            destruct (locc_node H HO s c0 r1 o1 Hl0) as (z & Hz & Zr & Zo & _).
+            replace (cN (r1, o1)) with (ncrd z) by (unfold ncrd; rewrite Zr, Zo; reflexivity).
             exact (rf_node_vld H HO s z Hz). }
-          unfold P1. apply in_map_iff. exists c. split; [|exact Hc].
-          rewrite Ecc. symmetry. apply (rf_pos_g H s'). }
+          apply MP2. exists ((r1, o1), F (g total (cN (r1, o1)))). split; [|reflexivity].
+          unfold XP. apply in_map_iff. exists (r1, o1). split; [reflexivity|].
+          rewrite EPCc, Ecc in Hc. apply in_map_iff in Hc as (c' & Ec' & Hc'). apply cN_inj in Ec'.
+          subst c'. exact Hc'. }
         destruct Hcase as [(Hl & Hnr & ->)|(Hr & Hnl & ->)].
-        + apply (Hgen rr _ Lr). apply (canon_pos_occ H HO s Hn63 Hnd sorted LS FlS).
-          exists h, l, rr, r, o. split; [exact Hold|]. left.
-          split; [apply (Hhit l (2 * o) Ll), Hl|]. split; [|reflexivity].
-          intros Hx. apply Hnr. apply (Hhit rr (2 * o + 1) Lr), Hx.
-        + apply (Hgen l _ Ll). apply (canon_pos_occ H HO s Hn63 Hnd sorted LS FlS).
-          exists h, l, rr, r, o. split; [exact Hold|]. right.
-          split; [apply (Hhit rr (2 * o + 1) Lr), Hr|]. split; [|reflexivity].
-          intros Hx. apply Hnl. apply (Hhit l (2 * o) Ll), Hx. }
+        + change (pos R' r (2 * o + 1)) with (cpos R' (r, 2 * o + 1)). rewrite <- Err.
+          apply (Hgen rr _ Lr). apply (canon_pos_occ H HO s Hn63 Hnd sorted LS FlS).
+          exists h, l, rr, r1, o0. split; [exact Hold|]. left.
+          split; [apply (Hhit l (2 * o0) Ll), Hl|]. split; [|reflexivity].
+          intros Hx. apply Hnr. apply (Hhit rr (2 * o0 + 1) Lr), Hx.
+        + change (pos R' r (2 * o)) with (cpos R' (r, 2 * o)). rewrite <- El.
+          apply (Hgen l _ Ll). apply (canon_pos_occ H HO s Hn63 Hnd sorted LS FlS).
+          exists h, l, rr, r1, o0. split; [exact Hold|]. right.
+          split; [apply (Hhit rr (2 * o0 + 1) Lr), Hr|]. split; [|reflexivity].
+          intros Hx. apply Hnl. apply (Hhit l (2 * o0) Ll), Hx. }
     (* the mirror of [updateProofAdd] on these graphs *)
-    rewrite EhP, EhT, ENN, ETC.
-    pose proof (pu_updateProofAdd_graph H HO F' n adds rem TC PC NN (computable_pos R lay sorted)
-                  needed (computable_pos R' lay' sortedU)) as G.
+    rewrite ENN, ETC.
+    pose proof (pu_updateProofAdd_graph2 H HO F' n adds rem TC PC (map (@nhash H) sorted)
+                  (map F (canon_proof_pos R lay sorted)) (map (cpos R') D) T2 P2 NN
+                  (computable_pos R lay sorted) needed (computable_pos R' lay' sortedU)) as G.
     cbv zeta in G. rewrite <- Elen in G.
-    assert (Hb' : N.of_nat (length s') <= 2 ^ 63) by exact Hn63'.
-    specialize (G Hb' HvT HvP).
-    rewrite <- ETC, <- EPC in G. specialize (G HsT HsP Epp HsNN Hrem Epp' Hsn Hsub).
+    specialize (G Hn63' HvT HvP).
+    rewrite <- ETC, <- EPC in G. specialize (G HsT HsP).
+    assert (ElT : length TC = length (map (@nhash H) sorted)) by (unfold TC; rewrite !map_length; reflexivity).
+    assert (ElP : length PC = length (map F (canon_proof_pos R lay sorted)))
+      by (rewrite EPC, !map_length; reflexivity).
+    specialize (G ElT ElP Epp HmT HmP HsT2 HsP2 HsNN Hrem Epp' Hsn Hsub).
     rewrite ETC in G.
     refine (eq_trans G _).
     change (Some (map F' T3, T3, map F' needed)
@@ -1540,13 +2510,14 @@ Section AddOnly.
     rewrite <- (po_canon_hashes_Fv H HO s' Hn63' sortedU LSU). reflexivity.
   Qed.
 
-  (** G1 (sub-case): an addition-only block on a forest without empty roots *)
+  (** G1: an addition-only block, on any forest (empty roots may be written over, the forest may
+      grow a row) *)
   Theorem proof_update_add_only :
     proof_update HO tC pC hC adds [] rem (ud_of_spec (spec_update_data HO s [] adds))
     = exp_cached HO (mk_ctx HO (apply_block HO s [] adds)) (C ++ pick adds rem) /\
     exp_cached HO (mk_ctx HO (apply_block HO s [] adds)) (C ++ pick adds rem) <> None.
   Proof.
-    destruct ao_both as [Erem Eadd].
+    destruct ag_both as [Erem Eadd].
     unfold proof_update, ud_of_spec, spec_update_data.
     cbn [u_del u_prev u_add u_to_destroy ud_new_del ud_prev_num_leaves ud_new_add ud_to_destroy].
     rewrite (pu_kill_nil H HO s), (pu_new_del_nil H HO s).
@@ -1556,7 +2527,7 @@ Section AddOnly.
         with (updateProofRemove HO tC pC [] hC [] (num_leaves s)) end.
     rewrite Erem. exact Eadd.
   Qed.
-End AddOnly.
+End AddGen.
 
 Print Assumptions proof_update_add_only.
 
@@ -1577,12 +2548,11 @@ Proof.
   - cbn [place_entry] in Hxe. destruct Hxe as [<-|[]]. left. reflexivity.
 Qed.
 
-(** G1 (sub-case) in the free algebra: additions that are atoms never collide with inner nodes *)
+(** G1 in the free algebra: additions that are atoms never collide with inner nodes *)
 Theorem proof_update_add_only_term (s : slots term) (adds C : list term) (rem : list N)
         (hC : list term) (tC : list N) (pC : list term) :
   (forall h, In (Some h) s -> h <> Zero) ->
   N.of_nat (length s + length adds) <= 2 ^ 63 ->
-  no_empty_root term term_ops s ->
   NoDup (live (s ++ map Some adds)) ->
   (forall a, In a adds -> exists i, a = Atom i) ->
   NoDup C -> SSlt rem ->
@@ -1591,9 +2561,9 @@ Theorem proof_update_add_only_term (s : slots term) (adds C : list term) (rem : 
   = exp_cached term_ops (mk_ctx term_ops (apply_block term_ops s [] adds)) (C ++ pick adds rem) /\
   exp_cached term_ops (mk_ctx term_ops (apply_block term_ops s [] adds)) (C ++ pick adds rem) <> None.
 Proof.
-  intros Hl Hb Hne Hnd Hatoms HC Hrem E.
+  intros Hl Hb Hnd Hatoms HC Hrem E.
   apply (proof_update_add_only term term_ops term_ops_ok cs_term_hash_nz s adds
-           (fun h Hh => term_nonzero_eqb h (Hl h Hh)) Hb Hne Hnd C rem HC Hrem); [|exact E].
+           (fun h Hh => term_nonzero_eqb h (Hl h Hh)) Hb Hnd C rem HC Hrem); [|exact E].
   intros x Hx Hlf Hin. destruct (Hatoms _ (pick_In adds rem _ Hin)) as [i Ei].
   destruct (pu_term_inner _ x Hx Hlf) as [E0|(l & r & E0)]; congruence.
 Qed.
@@ -1620,8 +2590,35 @@ Proof.
   apply proof_update_add_only_term.
   - intros h Hh. cbn in Hh. repeat (destruct Hh as [Hh|Hh]; [try discriminate; injection Hh as <-; discriminate|]). destruct Hh.
   - vm_compute. discriminate.
-  - intros e He. vm_compute in He.
-    repeat (destruct He as [<-|He]; [discriminate|]). destruct He.
+  - apply po_ex_nodup; reflexivity.
+  - intros a Ha. cbn in Ha. repeat (destruct Ha as [<-|Ha]; [eexists; reflexivity|]). destruct Ha.
+  - apply po_ex_nodup; reflexivity.
+  - repeat constructor; lia.
+  - vm_compute. reflexivity.
+Qed.
+
+
+(** ... and seven slots whose middle tree is dead (an empty root at row 1, position 10 of the new
+    geometry) with three additions that write it over (7 -> 10 leaves, a new row) *)
+Definition pu_ex_s2 : slots term :=
+  [Some (Atom 1); Some (Atom 2); Some (Atom 3); Some (Atom 4); None; None; Some (Atom 7)].
+Definition pu_ex_adds2 : list term := [Atom 8; Atom 9; Atom 10].
+
+Example pu_ex_destroyed :
+  to_destroy term_ops (rows_of (num_leaves (pu_ex_s2 ++ map Some pu_ex_adds2))) pu_ex_s2 pu_ex_adds2
+  = [18] /\
+  exists hC tC pC,
+    exp_cached term_ops (mk_ctx term_ops pu_ex_s2) [Atom 7; Atom 2] = Some (hC, tC, pC) /\
+    proof_update term_ops tC pC hC pu_ex_adds2 [] [0; 2]
+                 (ud_of_spec (spec_update_data term_ops pu_ex_s2 [] pu_ex_adds2))
+    = exp_cached term_ops (mk_ctx term_ops (apply_block term_ops pu_ex_s2 [] pu_ex_adds2))
+                 ([Atom 7; Atom 2] ++ pick pu_ex_adds2 [0; 2]).
+Proof.
+  split; [vm_compute; reflexivity|].
+  eexists _, _, _. split; [vm_compute; reflexivity|].
+  apply proof_update_add_only_term.
+  - intros h Hh. cbn in Hh. repeat (destruct Hh as [Hh|Hh]; [try discriminate; injection Hh as <-; discriminate|]). destruct Hh.
+  - vm_compute. discriminate.
   - apply po_ex_nodup; reflexivity.
   - intros a Ha. cbn in Ha. repeat (destruct Ha as [<-|Ha]; [eexists; reflexivity|]). destruct Ha.
   - apply po_ex_nodup; reflexivity.
@@ -1719,3 +2716,13 @@ Example pu_g0_large :
       (map (fun i => Some (Atom i)) (pu_seqN 1 16), map Atom [5; 6; 7; 8], map Atom [5; 6; 7],
          map Atom [20], [0]) ] = true.
 Proof. vm_compute. reflexivity. Qed.
+
+(** What remains for C07: blocks with deletions.  [updateProofRemove] with block targets needs
+    (i) a specification of [deTwin] (the detwinned sorted block targets are the roots of the maximal
+    fully deleted subtrees), (ii) [getNewPositions] with several targets (the single-target case is
+    [pu_gnp_targets_single]; [subtree_same_block] is the fact about [DetectOffset] it needs) on the
+    list [kept ++ missing], which is not sorted, (iii) the occurrences of [kill dels s] from those of
+    [s] through [RefTheory.forest_kill]/[prune], and (iv) the update data [new_del]
+    ([StumpDelData.stump_del_data_nodes]).  The general block is then the composition of the remove
+    part on [s] and [ag_both] on [kill dels s].  The check [pu_check] above covers all of it by
+    computation on small histories. *)
